@@ -15,26 +15,28 @@ use kvk::ds;
 use kvk::qast::*;
 use kvk::qgen::Gen;
 use kvk::upd::{UGen, Upd, QT, TT};
-use std::collections::{BTreeMap, BTreeSet};
+use std::collections::BTreeSet;
 use std::io::{BufRead, BufReader, Write};
 use std::path::PathBuf;
 use std::process::{Child, ChildStdin, Command, Stdio};
 use std::sync::mpsc::{channel, Receiver, RecvTimeoutError};
 use std::time::Duration;
 
-const RULE: &str = "faithful: G-QUERY SELECT trees and the six update forms (+ legacy aliases), decorated with every term spelling of the documented fragment (IRIs, prefixed names incl. escapes / multi-byte / keyword-like prefixes, blank nodes, bare identifiers that start with keywords, all literal forms, numbers, booleans, RDF-star quoted triples, $vars), extra `;` `,` lists, scoped single-element groups, function / arithmetic filters; each tree printed in 2 random layouts (no / random whitespace, # comments with hostile bodies between any two tokens, random keyword case, optional dots / WHERE / wrapped aggregates) and parsed through parse_combined_query(_with_options), parse_sparql_query and parse_group_graph_pattern (+ tail). mutate / everyoffset / nesting / trailing: totality workloads (byte and token mutations, 2-3-4-byte characters at every offset, truncation and deletion at every offset, nesting ladders 10..100000 for every recursive construct, junk after complete queries). Non-trivial = a generated tree with >= 3 pattern nodes whose parse was compared with the normal form (distinct by hash of normal form + layout), or a distinct hostile input on which at least one entry point got past offset 0 (distinct by hash of the text).";
+const RULE: &str = "nesting: ladders 10..100000 for every recursive or repeated construct (22 constructs), the smallest killing depth narrowed by bisection; systematic: every pair of words exchanged and every number replaced by boundary values in the hand-written extension / SPARQL seeds; faithful: G-QUERY SELECT trees and the six update forms (+ legacy aliases), decorated with every term spelling of the documented fragment (IRIs, prefixed names incl. escapes / multi-byte / keyword-like prefixes, blank nodes, bare identifiers that start with keywords, all literal forms, numbers, booleans, RDF-star quoted triples, $vars), extra `;` `,` lists, scoped single-element groups, function / arithmetic filters; each tree printed in 2 random layouts (no / random whitespace, # comments with hostile bodies between any two tokens, random keyword case, optional dots / WHERE / wrapped aggregates) and parsed through parse_combined_query(_with_options), parse_sparql_query and parse_group_graph_pattern (+ tail). mutate / everyoffset / nesting / trailing: totality workloads (byte and token mutations, 2-3-4-byte characters at every offset, truncation and deletion at every offset, nesting ladders 10..100000 for every recursive construct, junk after complete queries). Non-trivial = a generated tree with >= 3 pattern nodes whose parse was compared with the normal form (distinct by hash of normal form + layout), or a distinct hostile input on which at least one entry point got past offset 0 (distinct by hash of the text).";
 
 // ---------------------------------------------------------------------------------------
 // worker client
 
 #[derive(Debug, Clone)]
-enum Reply {
+pub enum Reply {
     Ok { rest: String, dump: Option<Value> },
-    Err { code: String, wher: String, pos: i64 },
+    Err { code: String, wher: String, pos: i64, len: i64 },
     Panic(String),
     Bad(String),
     Died { signal: Option<i32>, code: Option<i32>, stderr: String, during_drop: bool },
     Timeout,
+    /// answer of an execute request (C17)
+    Res(Value),
 }
 
 struct Worker {
@@ -44,16 +46,18 @@ struct Worker {
     err_path: PathBuf,
 }
 
-struct Pool {
+pub struct Pool {
     exe: PathBuf,
     dir: PathBuf,
     w: Option<Worker>,
     spawned: u64,
     seq: u64,
     timeout: Duration,
+    /// cause attribution already done for (case, failure kind)
+    attributed: std::collections::BTreeMap<(u64, bool), String>,
 }
 
-fn escape(s: &str) -> String {
+pub fn escape(s: &str) -> String {
     let mut o = String::with_capacity(s.len() + 8);
     for c in s.chars() {
         match c {
@@ -69,21 +73,21 @@ fn escape(s: &str) -> String {
 }
 
 impl Pool {
-    fn new() -> Result<Pool, String> {
+    pub fn new() -> Result<Pool, String> {
         let exe = std::env::current_exe().map_err(|e| e.to_string())?.parent().ok_or("no parent dir")?.join("kworker");
         if !exe.exists() {
             return Err(format!("{} not built", exe.display()));
         }
         let dir = std::env::temp_dir().join(format!("kv-C16-workers-{}", std::process::id()));
         std::fs::create_dir_all(&dir).map_err(|e| e.to_string())?;
-        Ok(Pool { exe, dir, w: None, spawned: 0, seq: 0, timeout: Duration::from_secs(180) })
+        Ok(Pool { exe, dir, w: None, spawned: 0, seq: 0, timeout: Duration::from_secs(180), attributed: Default::default() })
     }
 
     fn spawn(&mut self) -> Result<(), String> {
         self.spawned += 1;
         let err_path = self.dir.join(format!("w{}.stderr", self.spawned));
         let errf = std::fs::File::create(&err_path).map_err(|e| e.to_string())?;
-        let mut child = Command::new(&self.exe).stdin(Stdio::piped()).stdout(Stdio::piped()).stderr(Stdio::from(errf)).spawn().map_err(|e| e.to_string())?;
+        let mut child = Command::new(&self.exe).current_dir(&self.dir).stdin(Stdio::piped()).stdout(Stdio::piped()).stderr(Stdio::from(errf)).spawn().map_err(|e| e.to_string())?;
         let stdin = child.stdin.take().ok_or("no stdin")?;
         let stdout = child.stdout.take().ok_or("no stdout")?;
         let (tx, rx) = channel::<String>();
@@ -112,7 +116,10 @@ impl Pool {
         let st = w.child.wait().ok();
         use std::os::unix::process::ExitStatusExt;
         let (signal, code) = st.map(|s| (s.signal(), s.code())).unwrap_or((None, None));
-        let stderr: String = std::fs::read_to_string(&w.err_path).unwrap_or_default().chars().take(600).collect();
+        // the end of the worker's stderr: that is where the runtime reports a stack overflow
+        let all = String::from_utf8_lossy(&std::fs::read(&w.err_path).unwrap_or_default()).into_owned();
+        let n = all.chars().count();
+        let stderr: String = all.chars().skip(n.saturating_sub(600)).collect();
         let _ = std::fs::remove_file(&w.err_path);
         Reply::Died { signal, code, stderr, during_drop }
     }
@@ -125,8 +132,23 @@ impl Pool {
         }
     }
 
-    /// one request; the worker is (re)started when needed
-    fn ask(&mut self, entry: &str, dump: bool, text: &str) -> Reply {
+    /// one parse request; the worker is (re)started when needed
+    pub fn ask(&mut self, entry: &str, dump: bool, text: &str) -> Reply {
+        let body = format!("P\t{}\t{}\t{}", entry, if dump { "d" } else { "-" }, escape(text));
+        self.request(&body)
+    }
+
+    /// one execute request against a database state `kind:seed`
+    pub fn exec(&mut self, api: &str, state: &str, text: &str) -> Reply {
+        let body = format!("X\t{}\t{}\t{}", api, state, escape(text));
+        self.request(&body)
+    }
+
+    pub fn started(&self) -> u64 {
+        self.spawned
+    }
+
+    fn request(&mut self, body: &str) -> Reply {
         if self.w.is_none() {
             if let Err(e) = self.spawn() {
                 return Reply::Bad(format!("cannot start worker: {}", e));
@@ -134,7 +156,7 @@ impl Pool {
         }
         self.seq += 1;
         let id = self.seq.to_string();
-        let line = format!("{}\tP\t{}\t{}\t{}\n", id, entry, if dump { "d" } else { "-" }, escape(text));
+        let line = format!("{}\t{}\n", id, body);
         {
             let w = self.w.as_mut().unwrap();
             if w.stdin.write_all(line.as_bytes()).and_then(|_| w.stdin.flush()).is_err() {
@@ -173,10 +195,12 @@ impl Pool {
                         "err" => {
                             let code = p.next().unwrap_or("").to_string();
                             let wher = p.next().unwrap_or("").to_string();
-                            let pos = p.next().unwrap_or("-1").parse().unwrap_or(-1);
-                            Reply::Err { code, wher, pos }
+                            let pl = p.next().unwrap_or("-1");
+                            let (ps, ls) = pl.split_once(':').unwrap_or((pl, "-1"));
+                            Reply::Err { code, wher, pos: ps.parse().unwrap_or(-1), len: ls.parse().unwrap_or(-1) }
                         }
                         "panic" => Reply::Panic(body[6..].to_string()),
+                        "res" => Reply::Res(serde_json::from_str::<Value>(&body[4..]).unwrap_or(Value::Null)),
                         _ => Reply::Bad(body.to_string()),
                     };
                     // a panic while dropping overrides an earlier ok
@@ -196,7 +220,7 @@ impl Drop for Pool {
     }
 }
 
-fn panic_site(msg: &str) -> String {
+pub fn panic_site(msg: &str) -> String {
     match msg.rsplit_once(" @ ") {
         Some((_, loc)) => match loc.find("/repo/") {
             Some(i) => loc[i + 6..].to_string(),
@@ -206,7 +230,24 @@ fn panic_site(msg: &str) -> String {
     }
 }
 
-fn clip(s: &str, n: usize) -> String {
+/// panic location for signatures: repository files keep their line, files of dependencies
+/// are named by crate and file only (registry path, version and line are not stable)
+pub fn stable_site(msg: &str) -> String {
+    let site = panic_site(msg);
+    match site.find("/registry/src/") {
+        Some(i) => {
+            let rest = &site[i + 14..];
+            let rest = rest.split_once('/').map(|x| x.1).unwrap_or(rest);
+            let (krate, file) = rest.split_once('/').unwrap_or((rest, ""));
+            let name = krate.rsplit_once('-').map(|x| x.0).unwrap_or(krate);
+            let file = file.rsplit_once(':').map(|x| x.0).unwrap_or(file);
+            format!("dependency:{}/{}", name, file)
+        }
+        None => site,
+    }
+}
+
+pub fn clip(s: &str, n: usize) -> String {
     if s.chars().count() <= n {
         s.to_string()
     } else {
@@ -220,7 +261,7 @@ fn clip(s: &str, n: usize) -> String {
 // JSON comparison
 
 /// first difference between two JSON values as (generalised path, expected, got)
-fn diff(exp: &Value, got: &Value, path: &str) -> Option<(String, Value, Value)> {
+pub fn diff(exp: &Value, got: &Value, path: &str) -> Option<(String, Value, Value)> {
     match (exp, got) {
         (Value::Object(a), Value::Object(b)) => {
             let ka: BTreeSet<&String> = a.keys().collect();
@@ -260,7 +301,7 @@ fn diff(exp: &Value, got: &Value, path: &str) -> Option<(String, Value, Value)> 
 // tokens and layout
 
 #[derive(Clone, Copy, PartialEq, Eq, Debug)]
-enum TK {
+pub enum TK {
     Kw,
     Sym,
     Term,
@@ -269,14 +310,14 @@ enum TK {
 }
 
 #[derive(Clone, Debug)]
-struct Tok {
+pub struct Tok {
     s: String,
     k: TK,
     open: Vec<usize>,
     close: Vec<usize>,
 }
 
-fn term_class(s: &str) -> &'static str {
+pub fn term_class(s: &str) -> &'static str {
     if s.starts_with('?') || s.starts_with('$') {
         "var"
     } else if s.starts_with("<<") {
@@ -329,6 +370,10 @@ fn need_space(a: &Tok, b: &Tok) -> bool {
     if la == '!' && fb == '=' {
         return true;
     }
+    // `""` followed by `"x"` would read as the start of a long string
+    if (la == '"' || la == '\'') && fb == la {
+        return true;
+    }
     wordish_end(la) && wordish_start(fb)
 }
 
@@ -336,13 +381,13 @@ const WS: [&str; 8] = [" ", " ", "  ", "\t", "\n", "\r\n", "\n  ", " \t "];
 const COMMENT_BODIES: [&str; 14] = ["", " c", " } { )", " \"unterminated", " 'x", " <http://k/e1>", " SELECT * WHERE", " é€😀", " FILTER(", "#", " \\", " . ; ,", " <<", " UNION"];
 
 #[derive(Clone, Copy, Debug)]
-struct Style {
-    tight: usize,    // % chance of no separator where none is needed
-    comments: usize, // % chance that a separator carries a comment
-    case: u8,        // 0 upper, 1 lower, 2 random per letter, 3 capitalised
+pub struct Style {
+    pub tight: usize,    // % chance of no separator where none is needed
+    pub comments: usize, // % chance that a separator carries a comment
+    pub case: u8,        // 0 upper, 1 lower, 2 random per letter, 3 capitalised
 }
 
-fn random_style(r: &mut Rng) -> Style {
+pub fn random_style(r: &mut Rng) -> Style {
     Style { tight: *r.pick(&[0usize, 30, 60, 100]), comments: *r.pick(&[0usize, 0, 10, 30]), case: r.below(4) as u8 }
 }
 
@@ -353,16 +398,16 @@ fn separator(r: &mut Rng, st: &Style, needed: bool) -> String {
     let mut s = String::new();
     if r.chance(st.comments, 100) {
         if r.coin() {
-            s.push_str(r.pick(&WS));
+            s.push_str(*r.pick(&WS));
         }
         s.push('#');
-        s.push_str(r.pick(&COMMENT_BODIES));
-        s.push_str(r.pick(&["\n", "\n", "\r\n", "\r"]));
+        s.push_str(*r.pick(&COMMENT_BODIES));
+        s.push_str(*r.pick(&["\n", "\n", "\r\n", "\r"]));
         if r.coin() {
-            s.push_str(r.pick(&WS));
+            s.push_str(*r.pick(&WS));
         }
     } else {
-        s.push_str(r.pick(&WS));
+        s.push_str(*r.pick(&WS));
     }
     s
 }
@@ -382,8 +427,8 @@ fn kw_case(r: &mut Rng, st: &Style, k: &str) -> String {
     }
 }
 
-struct Laid {
-    text: String,
+pub struct Laid {
+    pub text: String,
     /// byte span of every marked token range
     spans: Vec<(usize, usize)>,
     /// byte span of every token
@@ -391,7 +436,7 @@ struct Laid {
     comments: bool,
 }
 
-fn layout(toks: &[Tok], nspans: usize, r: &mut Rng, st: &Style) -> Laid {
+pub fn layout(toks: &[Tok], nspans: usize, r: &mut Rng, st: &Style) -> Laid {
     let mut text = String::new();
     let mut spans = vec![(0usize, 0usize); nspans];
     let mut tok_at = Vec::with_capacity(toks.len());
@@ -429,7 +474,7 @@ fn layout(toks: &[Tok], nspans: usize, r: &mut Rng, st: &Style) -> Laid {
 }
 
 /// replace {"$span": id} by the printed text of that token range and resolve {"$scope": v}
-fn resolve(v: &Value, laid: &Laid, strict_scopes: bool) -> Value {
+pub fn resolve(v: &Value, laid: &Laid, strict_scopes: bool) -> Value {
     match v {
         Value::Object(m) => {
             if m.len() == 1 {
@@ -447,4 +492,1893 @@ fn resolve(v: &Value, laid: &Laid, strict_scopes: bool) -> Value {
         Value::Array(a) => Value::Array(a.iter().map(|x| resolve(x, laid, strict_scopes)).collect()),
         _ => v.clone(),
     }
+}
+
+// ---------------------------------------------------------------------------------------
+// printer: generated tree -> tokens + expected normal form, in one pass
+
+#[derive(Clone, Copy, PartialEq, Eq, Debug)]
+enum Pos {
+    Subj,
+    Pred,
+    Obj,
+    GraphName,
+    Cell,
+    Operand,
+    From,
+}
+
+const PREFIXES: [(&str, &str); 8] = [("k", "http://k/"), ("", "http://d/"), ("xsd", "http://www.w3.org/2001/XMLSchema#"), ("filter", "http://f/"), ("a", "http://a/"), ("true", "http://t/"), ("union", "http://u/"), ("kü", "http://ku/")];
+
+const X_IRI: [&str; 7] = ["<http://k/é€😀>", "<http://k/p#frag>", "<http://k/a?b=c&d=e>", "<http://k/\\u00e9x>", "<urn:x:y>", "<>", "<http://k/\\U0001F600>"];
+const X_PNAME: [&str; 17] = ["k:e1", ":x", "k:", ":", "k:a.b", "k:a-b", "k:%41x", "k:a\\-b", "k:été", "kü:x", "k:x:y", "k:1a", "filter:x", "a:b", "true:x", "union:u", "k:€😀"];
+const X_BLANK: [&str; 4] = ["_:b1", "_:b.x", "_:1", "_:été"];
+const X_BARE: [&str; 11] = ["FILTERx", "unionized", "x-y", "graphite", "selectx", "bindx", "a1", "valuesx", "trueish", "é1", "limitless"];
+const X_LIT: [&str; 18] = [
+    "\"a\\\"b\"", "\"x # y\"", "\"}{\"", "'q\"q'", "\"\"\"multi\nline \"quoted\" \"\"\"", "\"\"", "\"é€😀\"", "\"tab\\t\"", "\"\\u00e9\"", "\"a\"@en-GB", "\"1\"^^xsd:integer", "'''it's'''", "\"x\"^^<http://www.w3.org/2001/XMLSchema#string>", "\"SELECT * WHERE { ?s ?p ?o }\"", "'#'", "\"\\\\\"", "\"a\"@fr", "\"\\U0001F600\"",
+];
+const X_NUM: [&str; 9] = ["3", "-5", "+7", "1.5", ".5", "1e5", "1.5e-3", "2E+2", "007"];
+const X_QT_GROUND: [&str; 3] = ["<< <http://k/e1> <http://k/p1> 3 >>", "<<k:a k:b \"v\"@en>>", "<< << k:a k:b k:c >> <http://k/p2> \"é\" >>"];
+const X_QT_OPEN: [&str; 3] = ["<< ?qs k:p \"v\" >>", "<< <http://k/e1> ?qp _:qb >>", "<< << ?x a k:C >> k:saidBy _:w >>"];
+
+struct Pr {
+    r: Rng,
+    toks: Vec<Tok>,
+    nspans: usize,
+    pending_open: Vec<usize>,
+    /// % chance that a constant is replaced by an exotic spelling of its position
+    exotic: usize,
+    /// inside a DATA block: no variables
+    ground: bool,
+    allow_blank: bool,
+    feats: BTreeSet<String>,
+    prefixes: BTreeSet<usize>,
+    nodes: usize,
+    /// diagnosis mode: Some(f) = only the optional printing feature `f` fires, and always
+    only: Option<&'static str>,
+}
+
+/// optional printing features (deviations from the plainest printing), the candidates of
+/// the cause attribution
+const FEATURES: [&str; 40] = [
+    "dollar_variable", "exotic:iri", "exotic:prefixed_name", "exotic:blank_node", "exotic:quoted_triple", "exotic:bare_identifier", "exotic:number", "exotic:boolean", "exotic:literal", "exotic:a",
+    "prefixed_name_for_iri", "number_respelled", "literal_respelled", "invented_predicate_object_lists", "trailing_semicolon", "optional_dot_after_triples", "abbreviate_same_subject", "comma_for_same_predicate",
+    "arithmetic_redundant_parentheses", "decimal_in_arithmetic", "deep_arithmetic", "filter_redundant_parentheses", "double_negation_without_parentheses", "function_call_filter", "bare_arithmetic_filter",
+    "group_holding_only_a_filter", "dot_after_block", "single_quoted_bind_argument", "bare_number_bind_argument", "values_parenthesised_single_variable", "aggregate_without_parentheses", "where_keyword_omitted",
+    "from_clauses_interleaved", "order_condition_bare_variable", "order_by_commas", "extra_prefix_declaration", "missing_prologue", "legacy_alias_without_DATA", "quads_share_graph_block", "optional_dot_in_quad_block",
+];
+
+struct Item {
+    v: Value,
+    /// a `{ }` group whose only content is a FILTER or BIND: its scope is observable
+    lone_scope: bool,
+    triples: bool,
+}
+
+impl Pr {
+    fn new(r: Rng, exotic: usize) -> Pr {
+        Pr { r, toks: vec![], nspans: 0, pending_open: vec![], exotic, ground: false, allow_blank: true, feats: BTreeSet::new(), prefixes: BTreeSet::new(), nodes: 0, only: None }
+    }
+    /// does the optional feature `f` fire here? (num/den in normal mode)
+    fn on(&mut self, f: &'static str, num: usize, den: usize) -> bool {
+        debug_assert!(FEATURES.contains(&f), "{}", f);
+        match self.only {
+            None => self.r.chance(num, den),
+            // (term classes are also tried inside invented `;` `,` lists)
+            Some(g) => g == f || (f == "invented_predicate_object_lists" && g.starts_with("exotic:")),
+        }
+    }
+    fn push(&mut self, s: &str, k: TK) {
+        let open = std::mem::take(&mut self.pending_open);
+        self.toks.push(Tok { s: s.to_string(), k, open, close: vec![] });
+    }
+    fn kw(&mut self, s: &str) {
+        self.push(s, TK::Kw);
+    }
+    fn sym(&mut self, s: &str) {
+        self.push(s, TK::Sym);
+    }
+    fn term(&mut self, s: &str) {
+        self.feats.insert(format!("term:{}", term_class(s)));
+        if let Some((p, _)) = s.split_once(':') {
+            if !s.starts_with('<') && !s.starts_with('"') && !s.starts_with('\'') && !s.starts_with("_:") {
+                if let Some(i) = PREFIXES.iter().position(|(n, _)| *n == p) {
+                    self.prefixes.insert(i);
+                }
+            }
+        }
+        if s.contains("xsd:") {
+            self.prefixes.insert(2);
+        }
+        self.push(s, TK::Term);
+    }
+    fn span_open(&mut self) -> usize {
+        let id = self.nspans;
+        self.nspans += 1;
+        self.pending_open.push(id);
+        id
+    }
+    fn span_close(&mut self, id: usize) {
+        if let Some(t) = self.toks.last_mut() {
+            t.close.push(id);
+        }
+    }
+
+    fn var(&mut self, v: &str) -> String {
+        if self.on("dollar_variable", 1, 10) {
+            format!("${}", v)
+        } else {
+            format!("?{}", v)
+        }
+    }
+
+    fn exotic_classes(&self, pos: Pos) -> Vec<(&'static str, usize)> {
+        let mut v: Vec<(&'static str, usize)> = match pos {
+            Pos::Subj => vec![("iri", 2), ("prefixed_name", 3), ("blank_node", 2), ("quoted_triple", 1), ("bare_identifier", 2)],
+            Pos::Pred => vec![("a", 2), ("iri", 1), ("prefixed_name", 3)],
+            Pos::Obj => vec![("iri", 1), ("prefixed_name", 2), ("blank_node", 1), ("quoted_triple", 1), ("bare_identifier", 1), ("number", 2), ("boolean", 1), ("literal", 5)],
+            Pos::GraphName | Pos::From => vec![("iri", 1), ("prefixed_name", 1)],
+            Pos::Cell | Pos::Operand => vec![("iri", 1), ("prefixed_name", 2), ("number", 2), ("boolean", 1), ("literal", 2)],
+        };
+        if !self.allow_blank {
+            v.retain(|(c, _)| *c != "blank_node");
+        }
+        v
+    }
+
+    fn exotic_of_class(&mut self, class: &str) -> String {
+        match class {
+            "iri" => self.r.pick(&X_IRI).to_string(),
+            "prefixed_name" => self.r.pick(&X_PNAME).to_string(),
+            "blank_node" => self.r.pick(&X_BLANK).to_string(),
+            "bare_identifier" => self.r.pick(&X_BARE).to_string(),
+            "number" => self.r.pick(&X_NUM).to_string(),
+            "boolean" => self.r.pick(&["true", "false"]).to_string(),
+            "literal" => self.r.pick(&X_LIT).to_string(),
+            "a" => "a".to_string(),
+            _ => {
+                if self.ground || !self.allow_blank || self.r.coin() {
+                    self.r.pick(&X_QT_GROUND).to_string()
+                } else {
+                    self.r.pick(&X_QT_OPEN).to_string()
+                }
+            }
+        }
+    }
+
+    /// an exotic spelling for the position, or None (diagnosis mode: class not legal here)
+    fn exotic_term(&mut self, pos: Pos) -> Option<String> {
+        let classes = self.exotic_classes(pos);
+        let class = match self.only {
+            None => {
+                let w: Vec<usize> = classes.iter().map(|c| c.1).collect();
+                classes[self.r.weighted(&w)].0
+            }
+            Some(f) => {
+                let c = f.strip_prefix("exotic:")?;
+                classes.iter().find(|x| x.0 == c)?.0
+            }
+        };
+        Some(self.exotic_of_class(class))
+    }
+
+    fn spell_const(&mut self, c: &str, pos: Pos) -> String {
+        let want = match self.only {
+            None => self.r.chance(self.exotic, 100),
+            Some(f) => f.starts_with("exotic:"),
+        };
+        if want {
+            if let Some(t) = self.exotic_term(pos) {
+                return t;
+            }
+        }
+        if c.starts_with("_:") {
+            return c.to_string();
+        }
+        if ds::is_iri(c) {
+            if let Some(local) = c.strip_prefix(ds::NS) {
+                if self.on("prefixed_name_for_iri", 3, 10) {
+                    return format!("k:{}", local);
+                }
+            }
+            return format!("<{}>", c);
+        }
+        if ds::is_num(c) {
+            if !self.on("number_respelled", 3, 10) {
+                return c.to_string();
+            }
+            return match self.r.below(3) {
+                0 => format!("+{}", c),
+                1 => format!("{}.0", c),
+                2 => format!("0{}", c),
+                _ => c.to_string(),
+            };
+        }
+        let esc = c.replace('\\', "\\\\").replace('"', "\\\"");
+        if !self.on("literal_respelled", 5, 10) {
+            return format!("\"{}\"", esc);
+        }
+        match self.r.below(5) {
+            0 => format!("'{}'", c.replace('\\', "\\\\").replace('\'', "\\'")),
+            1 => format!("\"\"\"{}\"\"\"", esc),
+            2 => format!("\"{}\"@en", esc),
+            3 => format!("\"{}\"^^xsd:string", esc),
+            4 => format!("\"{}\"^^<http://www.w3.org/2001/XMLSchema#string>", esc),
+            _ => format!("\"{}\"", esc),
+        }
+    }
+
+    fn spell(&mut self, t: &T, pos: Pos) -> String {
+        match t {
+            T::Var(v) => self.var(v),
+            T::Const(c) => self.spell_const(c, pos),
+        }
+    }
+
+    // ---- triples ------------------------------------------------------------------------
+
+    /// one triples-same-subject statement starting with (s,p,o), optionally extended with
+    /// further given triples of the same subject and with invented `;` / `,` continuations
+    fn statement(&mut self, s: &str, rest: &[(String, String)], at_end_of_block: bool) -> Value {
+        // rest: (predicate, object) pairs in order; the first pair always prints its predicate
+        let mut triples: Vec<Value> = vec![];
+        self.term(s);
+        let mut prev_p: Option<String> = None;
+        for (i, (p, o)) in rest.iter().enumerate() {
+            let same = prev_p.as_deref() == Some(p.as_str());
+            if i > 0 {
+                if same && self.on("comma_for_same_predicate", 2, 3) {
+                    self.sym(",");
+                    self.feats.insert("abbrev:,".into());
+                } else {
+                    self.sym(";");
+                    self.feats.insert("abbrev:;".into());
+                    self.term(p);
+                }
+            } else {
+                self.term(p);
+            }
+            self.term(o);
+            triples.push(json!([s, p, o]));
+            prev_p = Some(p.clone());
+        }
+        if at_end_of_block && self.on("trailing_semicolon", 1, 12) {
+            self.sym(";");
+            self.feats.insert("abbrev:trailing;".into());
+        }
+        self.nodes += triples.len();
+        Value::from(triples)
+    }
+
+    /// extra (predicate, object) pairs invented at print time
+    fn invent_pairs(&mut self, first_p: &str, out: &mut Vec<(String, String)>) {
+        if !self.on("invented_predicate_object_lists", 1, 6) {
+            return;
+        }
+        let n = self.r.range(1, 3);
+        let mut p = first_p.to_string();
+        for _ in 0..n {
+            if self.r.coin() {
+                p = if self.ground || self.r.chance(4, 5) { self.invented(Pos::Pred) } else { self.var("p") };
+            }
+            let o = if self.ground || self.r.chance(2, 3) { self.invented(Pos::Obj) } else { self.var("x") };
+            out.push((p.clone(), o));
+        }
+    }
+
+    /// a term for an invented list member (plain terms in diagnosis mode)
+    fn invented(&mut self, pos: Pos) -> String {
+        if let Some(g) = self.only {
+            if let Some(c) = g.strip_prefix("exotic:") {
+                if let Some(cl) = self.exotic_classes(pos).iter().find(|x| x.0 == c).map(|x| x.0) {
+                    return self.exotic_of_class(cl);
+                }
+            }
+            return if pos == Pos::Pred { "<http://k/p9>".to_string() } else { "<http://k/e9>".to_string() };
+        }
+        let classes = self.exotic_classes(pos);
+        let w: Vec<usize> = classes.iter().map(|c| c.1).collect();
+        let c = classes[self.r.weighted(&w)].0;
+        self.exotic_of_class(c)
+    }
+
+    fn bgp(&mut self, ts: &[TP], next_is_triples: bool, last_in_group: bool, items: &mut Vec<Item>) {
+        let abbreviate = self.on("abbreviate_same_subject", 1, 2);
+        let mut i = 0;
+        while i < ts.len() {
+            let s = self.spell(&ts[i].0, Pos::Subj);
+            let mut pairs: Vec<(String, String)> = vec![];
+            let p0 = self.spell(&ts[i].1, Pos::Pred);
+            let o0 = self.spell(&ts[i].2, Pos::Obj);
+            pairs.push((p0, o0));
+            let mut j = i + 1;
+            while abbreviate && j < ts.len() && ts[j].0 == ts[i].0 {
+                let p = if ts[j].1 == ts[j - 1].1 { pairs.last().unwrap().0.clone() } else { self.spell(&ts[j].1, Pos::Pred) };
+                let o = self.spell(&ts[j].2, Pos::Obj);
+                pairs.push((p, o));
+                j += 1;
+            }
+            let p_first = pairs[0].0.clone();
+            self.invent_pairs(&p_first, &mut pairs);
+            let last_stmt = j >= ts.len();
+            let followed_by_triples = !last_stmt || next_is_triples;
+            let will_dot = followed_by_triples || self.on("optional_dot_after_triples", 1, 2);
+            let at_end = will_dot || (last_stmt && last_in_group);
+            let v = self.statement(&s, &pairs, at_end);
+            if will_dot {
+                self.sym(".");
+            }
+            items.push(Item { v: json!({ "bgp": v }), lone_scope: false, triples: true });
+            i = j;
+        }
+    }
+
+    // ---- expressions --------------------------------------------------------------------
+
+    fn arith(&mut self, a: &Arith, parent: u8, right: bool) -> Value {
+        let (prec, op) = match a {
+            Arith::Var(_) | Arith::Num(_) => (3u8, ""),
+            Arith::Add(..) => (1, "+"),
+            Arith::Sub(..) => (1, "-"),
+            Arith::Mul(..) => (2, "*"),
+            Arith::Div(..) => (2, "/"),
+        };
+        let paren = prec < parent || (prec == parent && right) || self.on("arithmetic_redundant_parentheses", 1, 8);
+        if paren {
+            self.sym("(");
+            self.feats.insert("arith:parens".into());
+        }
+        let v = match a {
+            Arith::Var(v) => {
+                let s = self.var(v);
+                self.term(&s);
+                json!({ "t": s })
+            }
+            Arith::Num(n) => {
+                let s = if self.on("decimal_in_arithmetic", 1, 6) { format!("{}.5", n) } else { n.to_string() };
+                self.term(&s);
+                json!({ "t": s })
+            }
+            Arith::Add(l, r) | Arith::Sub(l, r) | Arith::Mul(l, r) | Arith::Div(l, r) => {
+                let inner = if paren { 0 } else { prec };
+                let _ = inner;
+                let lv = self.arith(l, prec, false);
+                self.sym(op);
+                let rv = self.arith(r, prec, true);
+                let mut m = serde_json::Map::new();
+                m.insert(op.to_string(), json!([lv, rv]));
+                Value::Object(m)
+            }
+        };
+        if paren {
+            self.sym(")");
+        }
+        v
+    }
+
+    fn random_arith(&mut self, depth: usize, vars: &[String]) -> Arith {
+        if depth == 0 || self.r.chance(1, 3) {
+            return if !vars.is_empty() && self.r.coin() { Arith::Var(self.r.pick(vars).clone()) } else { Arith::Num(self.r.below(10) as i64) };
+        }
+        let l = Box::new(self.random_arith(depth - 1, vars));
+        let r = Box::new(self.random_arith(depth - 1, vars));
+        match self.r.below(4) {
+            0 => Arith::Add(l, r),
+            1 => Arith::Sub(l, r),
+            2 => Arith::Mul(l, r),
+            _ => Arith::Div(l, r),
+        }
+    }
+
+    fn cmp_op(&mut self, op: &str) {
+        if op == "=" || op == "!=" {
+            self.sym(op);
+        } else {
+            self.push(op, TK::Spaced);
+        }
+    }
+
+    /// ctx: 0 = an `||` operand list may appear bare, 1 = `&&` level, 2 = an atom is required
+    fn expr(&mut self, e: &Expr, ctx: u8) -> Value {
+        self.nodes += 1;
+        let my = match e {
+            Expr::Or(..) => 0u8,
+            Expr::And(..) => 1,
+            _ => 2,
+        };
+        let paren = my < ctx || (!matches!(e, Expr::Not(_)) && self.on("filter_redundant_parentheses", 1, 8));
+        if paren {
+            self.sym("(");
+            self.feats.insert("filter:parens".into());
+        }
+        let v = match e {
+            Expr::Or(a, b) => {
+                let x = self.expr(a, 0);
+                self.sym("||");
+                let y = self.expr(b, 1);
+                self.feats.insert("filter:||".into());
+                json!({ "or": [x, y] })
+            }
+            Expr::And(a, b) => {
+                let x = self.expr(a, 1);
+                self.sym("&&");
+                let y = self.expr(b, 2);
+                self.feats.insert("filter:&&".into());
+                json!({ "and": [x, y] })
+            }
+            Expr::Not(a) => {
+                self.sym("!");
+                self.feats.insert("filter:!".into());
+                if matches!(**a, Expr::Not(_)) && self.on("double_negation_without_parentheses", 1, 2) {
+                    let x = self.expr(a, 2);
+                    json!({ "not": x })
+                } else {
+                    self.sym("(");
+                    let x = self.expr(a, 0);
+                    self.sym(")");
+                    json!({ "not": x })
+                }
+            }
+            Expr::Cmp(v, op, t) => {
+                let l = self.var(v);
+                let ls = self.span_open();
+                self.term(&l);
+                self.span_close(ls);
+                self.cmp_op(op);
+                let rt = self.spell(t, Pos::Operand);
+                let rs = self.span_open();
+                self.term(&rt);
+                self.span_close(rs);
+                json!({"cmp": [{"$span": ls}, op, {"$span": rs}], "la": {"t": l}, "ra": {"t": rt}})
+            }
+            Expr::ArithCmp(a, op, b) => {
+                // sometimes a deeper expression than the generator's
+                let mut vs = vec![];
+                a.vars(&mut vs);
+                b.vars(&mut vs);
+                let (a2, b2) = if self.on("deep_arithmetic", 1, 3) { (self.random_arith(3, &vs), self.random_arith(2, &vs)) } else { (a.clone(), b.clone()) };
+                self.feats.insert("filter:arithmetic_comparison".into());
+                let ls = self.span_open();
+                let la = self.arith(&a2, 0, false);
+                self.span_close(ls);
+                self.cmp_op(op);
+                let rs = self.span_open();
+                let ra = self.arith(&b2, 0, false);
+                self.span_close(rs);
+                json!({"cmp": [{"$span": ls}, op, {"$span": rs}], "la": la, "ra": ra})
+            }
+        };
+        if paren {
+            self.sym(")");
+        }
+        v
+    }
+
+    fn filter(&mut self, e: &Expr) -> Value {
+        self.kw("FILTER");
+        self.sym("(");
+        let v = self.expr(e, 0);
+        self.sym(")");
+        json!({ "filter": v })
+    }
+
+    /// filters that the generator's AST cannot express
+    fn extra_filter(&mut self, call: bool) -> Value {
+        self.kw("FILTER");
+        self.sym("(");
+        let v = if call {
+            let (name, n) = *self.r.pick(&[("isTRIPLE", 1usize), ("SUBJECT", 1), ("PREDICATE", 1), ("OBJECT", 1), ("TRIPLE", 3)]);
+            self.kw(name);
+            self.sym("(");
+            let mut args = vec![];
+            for i in 0..n {
+                if i > 0 {
+                    self.sym(",");
+                }
+                let a = match self.r.below(4) {
+                    0 => self.r.pick(&X_QT_OPEN).to_string(),
+                    1 if self.only.is_none() => {
+                        // argument classes of the function-call grammar (no booleans there)
+                        let c = *self.r.pick(&["iri", "prefixed_name", "number", "literal"]);
+                        self.exotic_of_class(c)
+                    }
+                    _ => self.var("t"),
+                };
+                self.term(&a);
+                args.push(a);
+            }
+            self.sym(")");
+            self.feats.insert("filter:function_call".into());
+            json!({ "call": [name, args] })
+        } else {
+            // (a leading parenthesis would be read as a parenthesised boolean expression)
+            let l = self.var("n");
+            self.term(&l);
+            self.sym("+");
+            let rhs = self.random_arith(2, &["m".to_string()]);
+            let rv = self.arith(&rhs, 1, true);
+            let v = json!({"+": [{"t": l}, rv]});
+            self.feats.insert("filter:bare_arithmetic".into());
+            json!({ "arith": v })
+        };
+        self.sym(")");
+        self.nodes += 1;
+        json!({ "filter": v })
+    }
+
+    // ---- groups -------------------------------------------------------------------------
+
+    fn collapse(items: Vec<Item>) -> (Value, bool) {
+        match items.len() {
+            0 => (json!("unit"), false),
+            1 => {
+                let it = items.into_iter().next().unwrap();
+                let lone = it.lone_scope || it.v.get("filter").is_some() || it.v.get("bind").is_some();
+                (it.v, lone)
+            }
+            _ => (json!({ "join": items.into_iter().map(|i| i.v).collect::<Vec<_>>() }), false),
+        }
+    }
+
+    fn items(&mut self, g: &[P]) -> Vec<Item> {
+        let mut items: Vec<Item> = vec![];
+        for (i, p) in g.iter().enumerate() {
+            let last = i + 1 == g.len();
+            let next_is_triples = matches!(g.get(i + 1), Some(P::Bgp(ts)) if !ts.is_empty());
+            if !self.ground && self.on("function_call_filter", 1, 50) {
+                let v = self.extra_filter(true);
+                items.push(Item { v, lone_scope: false, triples: false });
+            }
+            if !self.ground && self.on("bare_arithmetic_filter", 1, 50) {
+                let v = self.extra_filter(false);
+                items.push(Item { v, lone_scope: false, triples: false });
+            }
+            if !self.ground && self.on("group_holding_only_a_filter", 1, 80) {
+                // a nested group that holds nothing but a FILTER: its scope is its own
+                self.sym("{");
+                let e = Expr::Cmp("a".into(), "=", T::Const("1".into()));
+                let v = self.filter(&e);
+                self.sym("}");
+                self.feats.insert("group:lone_filter".into());
+                items.push(Item { v, lone_scope: true, triples: false });
+            }
+            match p {
+                P::Bgp(ts) => self.bgp(ts, next_is_triples, last, &mut items),
+                P::Group(inner) => {
+                    self.sym("{");
+                    let its = self.items(inner);
+                    self.sym("}");
+                    self.maybe_dot();
+                    let (v, lone) = Pr::collapse(its);
+                    self.nodes += 1;
+                    self.feats.insert("group:nested".into());
+                    items.push(Item { v, lone_scope: lone, triples: false });
+                }
+                P::Union(bs) => {
+                    let mut vs = vec![];
+                    for (bi, b) in bs.iter().enumerate() {
+                        if bi > 0 {
+                            self.kw("UNION");
+                        }
+                        vs.push(self.group(b));
+                    }
+                    self.maybe_dot();
+                    self.nodes += 1;
+                    self.feats.insert("UNION".into());
+                    items.push(Item { v: json!({ "union": vs }), lone_scope: false, triples: false });
+                }
+                P::Graph(n, inner) => {
+                    self.kw("GRAPH");
+                    let name = match n {
+                        GName::Iri(i) => self.spell_const(i, Pos::GraphName),
+                        GName::Var(v) => self.var(v),
+                    };
+                    self.term(&name);
+                    let v = self.group(inner);
+                    self.maybe_dot();
+                    self.nodes += 1;
+                    self.feats.insert("GRAPH".into());
+                    items.push(Item { v: json!({"graph": name, "p": v}), lone_scope: false, triples: false });
+                }
+                P::Filter(e) => {
+                    let v = self.filter(e);
+                    items.push(Item { v, lone_scope: false, triples: false });
+                }
+                P::Bind(args, v) => {
+                    self.kw("BIND");
+                    self.sym("(");
+                    self.kw("CONCAT");
+                    self.sym("(");
+                    let mut av = vec![];
+                    for (ai, a) in args.iter().enumerate() {
+                        if ai > 0 {
+                            self.sym(",");
+                        }
+                        match a {
+                            BindArg::Var(v) => {
+                                let s = self.var(v);
+                                self.term(&s);
+                                av.push(s);
+                            }
+                            BindArg::Str(s) => {
+                                if ds::is_num(s) && self.on("bare_number_bind_argument", 1, 2) {
+                                    self.term(s);
+                                } else if self.on("single_quoted_bind_argument", 1, 4) {
+                                    self.term(&format!("'{}'", s));
+                                } else {
+                                    self.term(&format!("\"{}\"", s));
+                                }
+                                av.push(s.clone());
+                            }
+                        }
+                    }
+                    self.sym(")");
+                    self.kw("AS");
+                    let out = self.var(v);
+                    self.term(&out);
+                    self.sym(")");
+                    self.nodes += 1;
+                    self.feats.insert("BIND".into());
+                    items.push(Item { v: json!({ "bind": ["CONCAT", av, out] }), lone_scope: false, triples: false });
+                }
+                P::Values(vars, rows) => {
+                    self.kw("VALUES");
+                    let single = vars.len() == 1 && !self.on("values_parenthesised_single_variable", 1, 8);
+                    let mut vv = vec![];
+                    if !single {
+                        self.sym("(");
+                    }
+                    for v in vars {
+                        let s = self.var(v);
+                        self.term(&s);
+                        vv.push(s);
+                    }
+                    if !single {
+                        self.sym(")");
+                    }
+                    self.sym("{");
+                    let mut rv = vec![];
+                    for row in rows {
+                        if !single {
+                            self.sym("(");
+                        }
+                        let mut cells = vec![];
+                        for c in row {
+                            match c {
+                                None => {
+                                    self.kw("UNDEF");
+                                    cells.push(Value::Null);
+                                }
+                                Some(t) => {
+                                    let s = self.spell_const(t, Pos::Cell);
+                                    self.term(&s);
+                                    cells.push(Value::from(s));
+                                }
+                            }
+                        }
+                        if !single {
+                            self.sym(")");
+                        }
+                        rv.push(Value::from(cells));
+                    }
+                    self.sym("}");
+                    self.nodes += 1;
+                    self.feats.insert("VALUES".into());
+                    items.push(Item { v: json!({"values": {"vars": vv, "rows": rv}}), lone_scope: false, triples: false });
+                }
+                P::Sub(q) => {
+                    self.sym("{");
+                    let v = self.select(q);
+                    self.sym("}");
+                    self.maybe_dot();
+                    self.nodes += 1;
+                    self.feats.insert("SUBSELECT".into());
+                    items.push(Item { v: json!({ "sub": v }), lone_scope: false, triples: false });
+                }
+            }
+        }
+        // a scoped single-element group only stays distinguishable inside a real sequence
+        if items.len() >= 2 {
+            for it in items.iter_mut() {
+                if it.lone_scope {
+                    it.v = json!({ "$scope": it.v.clone() });
+                    it.lone_scope = false;
+                }
+            }
+        }
+        let _ = items.iter().filter(|i| i.triples).count();
+        items
+    }
+
+    fn maybe_dot(&mut self) {
+        if self.on("dot_after_block", 1, 6) {
+            self.sym(".");
+            self.feats.insert("dot_after_block".into());
+        }
+    }
+
+    /// `{ … }` with the collapse rule of a group graph pattern
+    fn group(&mut self, g: &[P]) -> Value {
+        self.sym("{");
+        let its = self.items(g);
+        self.sym("}");
+        Pr::collapse(its).0
+    }
+
+    // ---- SELECT -------------------------------------------------------------------------
+
+    fn select(&mut self, q: &Select) -> Value {
+        self.kw("SELECT");
+        if q.distinct {
+            self.kw("DISTINCT");
+        }
+        let mut vars = vec![];
+        match &q.proj {
+            Proj::Star => {
+                self.sym("*");
+                vars.push(json!(["*", "*", null]));
+            }
+            Proj::Items(items) => {
+                for it in items {
+                    match it {
+                        ProjItem::Var(v) => {
+                            let s = self.var(v);
+                            self.term(&s);
+                            vars.push(json!(["VAR", s, null]));
+                        }
+                        ProjItem::Agg(a, v, alias) => {
+                            let wrapped = !self.on("aggregate_without_parentheses", 3, 10);
+                            if wrapped {
+                                self.sym("(");
+                            }
+                            self.kw(a.name());
+                            self.sym("(");
+                            let s = self.var(v);
+                            self.term(&s);
+                            self.sym(")");
+                            self.kw("AS");
+                            let al = self.var(alias);
+                            self.term(&al);
+                            if wrapped {
+                                self.sym(")");
+                            }
+                            self.feats.insert("aggregate".into());
+                            vars.push(json!([a.name(), s, al]));
+                        }
+                    }
+                }
+            }
+        }
+        let mut from = vec![];
+        let mut from_named = vec![];
+        // FROM and FROM NAMED clauses may interleave
+        let mut clauses: Vec<(bool, &String)> = q.from.iter().map(|f| (false, f)).chain(q.from_named.iter().map(|f| (true, f))).collect();
+        if self.on("from_clauses_interleaved", 1, 2) {
+            self.r.shuffle(&mut clauses);
+        }
+        for (named, f) in clauses {
+            self.kw("FROM");
+            if named {
+                self.kw("NAMED");
+            }
+            let s = self.spell_const(f, Pos::From);
+            self.term(&s);
+            if named {
+                from_named.push(s);
+            } else {
+                from.push(s);
+            }
+        }
+        if !self.on("where_keyword_omitted", 1, 7) {
+            self.kw("WHERE");
+        } else {
+            self.feats.insert("WHERE_omitted".into());
+        }
+        let gs = self.span_open();
+        let pattern = self.group(&q.group);
+        self.span_close(gs);
+        let mut group_by = vec![];
+        if !q.group_by.is_empty() {
+            self.kw("GROUP");
+            self.kw("BY");
+            for v in &q.group_by {
+                let s = self.var(v);
+                self.term(&s);
+                group_by.push(s);
+            }
+        }
+        let mut order = vec![];
+        if !q.order.is_empty() {
+            self.kw("ORDER");
+            self.kw("BY");
+            for (i, (v, desc)) in q.order.iter().enumerate() {
+                if i > 0 && self.on("order_by_commas", 1, 5) {
+                    self.sym(",");
+                }
+                let s = self.var(v);
+                if *desc {
+                    self.kw("DESC");
+                    self.sym("(");
+                    self.term(&s);
+                    self.sym(")");
+                } else if self.on("order_condition_bare_variable", 2, 5) {
+                    self.term(&s);
+                } else {
+                    self.kw("ASC");
+                    self.sym("(");
+                    self.term(&s);
+                    self.sym(")");
+                }
+                order.push(json!([s, if *desc { "DESC" } else { "ASC" }]));
+            }
+        }
+        if let Some(l) = q.limit {
+            self.kw("LIMIT");
+            self.term(&l.to_string());
+        }
+        self.nodes += 1;
+        json!({"distinct": q.distinct, "vars": vars, "from": from, "from_named": from_named, "pattern": pattern, "group_by": group_by, "order": order, "limit": q.limit, "$group_span": gs})
+    }
+
+    // ---- updates ------------------------------------------------------------------------
+
+    fn tt(&mut self, t: &TT, pos: Pos) -> String {
+        match t {
+            TT::Var(v) => self.var(v),
+            TT::Const(c) => self.spell_const(c, pos),
+            TT::Blank(b) => format!("_:{}", b),
+        }
+    }
+
+    /// `{ quads }`; returns the expected quad list
+    fn quads(&mut self, qs: &[QT]) -> Vec<Value> {
+        let mut out: Vec<Value> = vec![];
+        self.sym("{");
+        let mut i = 0;
+        while i < qs.len() {
+            let q = &qs[i];
+            match &q.graph {
+                None => {
+                    let s = self.tt(&q.s, Pos::Subj);
+                    let p = self.tt(&q.p, Pos::Pred);
+                    let o = self.tt(&q.o, Pos::Obj);
+                    let mut pairs = vec![(p.clone(), o)];
+                    self.invent_pairs(&p, &mut pairs);
+                    let next_plain = matches!(qs.get(i + 1), Some(n) if n.graph.is_none());
+                    let will_dot = next_plain || self.on("optional_dot_in_quad_block", 1, 2);
+                    let v = self.statement(&s, &pairs, will_dot || i + 1 == qs.len());
+                    if will_dot {
+                        self.sym(".");
+                    }
+                    for t in v.as_array().unwrap() {
+                        out.push(json!([null, t[0], t[1], t[2]]));
+                    }
+                    i += 1;
+                }
+                Some(g) => {
+                    self.kw("GRAPH");
+                    let gn = self.tt(g, Pos::GraphName);
+                    self.term(&gn);
+                    self.sym("{");
+                    // consecutive quads of the same graph may share the block
+                    let mut j = i;
+                    loop {
+                        let q = &qs[j];
+                        let s = self.tt(&q.s, Pos::Subj);
+                        let p = self.tt(&q.p, Pos::Pred);
+                        let o = self.tt(&q.o, Pos::Obj);
+                        let mut pairs = vec![(p.clone(), o)];
+                        self.invent_pairs(&p, &mut pairs);
+                        let more = j + 1 < qs.len() && qs[j + 1].graph.as_ref() == Some(g) && self.on("quads_share_graph_block", 1, 2);
+                        let will_dot = more || self.on("optional_dot_in_quad_block", 1, 2);
+                        let v = self.statement(&s, &pairs, true);
+                        if will_dot {
+                            self.sym(".");
+                        }
+                        for t in v.as_array().unwrap() {
+                            out.push(json!([gn, t[0], t[1], t[2]]));
+                        }
+                        j += 1;
+                        if !more {
+                            break;
+                        }
+                    }
+                    self.sym("}");
+                    self.maybe_dot();
+                    self.feats.insert("quads:GRAPH_block".into());
+                    i = j;
+                }
+            }
+        }
+        self.sym("}");
+        out
+    }
+
+    /// returns (expected for the strict entry point, expected with legacy aliases enabled);
+    /// `None` = must be rejected
+    fn update(&mut self, u: &Upd) -> (Option<Value>, Option<Value>) {
+        self.feats.insert(format!("update:{}", u.kind()));
+        match u {
+            Upd::InsertData(q) | Upd::DeleteData(q) => {
+                let ins = matches!(u, Upd::InsertData(_));
+                self.kw(if ins { "INSERT" } else { "DELETE" });
+                let alias = self.on("legacy_alias_without_DATA", 1, 4);
+                if !alias {
+                    self.kw("DATA");
+                } else {
+                    self.feats.insert("update:legacy_alias_without_DATA".into());
+                }
+                self.ground = true;
+                self.allow_blank = ins;
+                let qv = self.quads(q);
+                self.ground = false;
+                self.allow_blank = true;
+                let v = if ins { json!({ "insert_data": qv }) } else { json!({ "delete_data": qv }) };
+                (if alias { None } else { Some(v.clone()) }, Some(v))
+            }
+            Upd::InsertWhere { ins, pattern } => {
+                self.kw("INSERT");
+                let iv = self.quads(ins);
+                self.kw("WHERE");
+                let w = self.group(pattern);
+                let v = json!({"insert_where": {"insert": iv, "where": w}});
+                (Some(v.clone()), Some(v))
+            }
+            Upd::DeleteWhere { del, pattern } => {
+                self.kw("DELETE");
+                self.allow_blank = false;
+                let dv = self.quads(del);
+                self.allow_blank = true;
+                self.kw("WHERE");
+                let w = self.group(pattern);
+                let v = json!({"delete_where": {"delete": dv, "where": w}});
+                (Some(v.clone()), Some(v))
+            }
+            Upd::DeleteInsertWhere { del, ins, pattern } => {
+                self.kw("DELETE");
+                self.allow_blank = false;
+                let dv = self.quads(del);
+                self.allow_blank = true;
+                self.kw("INSERT");
+                let iv = self.quads(ins);
+                self.kw("WHERE");
+                let w = self.group(pattern);
+                let v = json!({"delete_insert_where": {"delete": dv, "insert": iv, "where": w}});
+                (Some(v.clone()), Some(v))
+            }
+            Upd::DeleteWhereShort(q) => {
+                self.kw("DELETE");
+                self.kw("WHERE");
+                self.allow_blank = false;
+                let qv = self.quads(q);
+                self.allow_blank = true;
+                // the quad block is template and pattern: one BGP per quad, GRAPH-wrapped
+                let mut pats: Vec<Value> = qv
+                    .iter()
+                    .map(|q| {
+                        let b = json!({"bgp": [[q[1], q[2], q[3]]]});
+                        if q[0].is_null() {
+                            b
+                        } else {
+                            json!({"graph": q[0], "p": b})
+                        }
+                    })
+                    .collect();
+                let w = match pats.len() {
+                    0 => json!("unit"),
+                    1 => pats.pop().unwrap(),
+                    _ => json!({ "join": pats }),
+                };
+                let v = json!({"delete_where_short": {"delete": qv, "where": w}});
+                (Some(v.clone()), Some(v))
+            }
+        }
+    }
+
+    /// PREFIX declarations for (some of) the prefixes in use; returns the expected map
+    fn prologue(&mut self) -> (Vec<Tok>, Value) {
+        let mut toks = vec![];
+        let mut map = serde_json::Map::new();
+        let mut decl: Vec<usize> = self.prefixes.iter().copied().collect();
+        if self.on("extra_prefix_declaration", 1, 5) {
+            decl.push(self.r.below(PREFIXES.len())); // unused or repeated declaration
+        }
+        if self.on("missing_prologue", 1, 10) {
+            decl.clear(); // prefixes are not resolved by the parser: a missing prologue still parses
+        }
+        self.r.shuffle(&mut decl);
+        for i in decl {
+            let (n, iri) = PREFIXES[i];
+            toks.push(Tok { s: "PREFIX".into(), k: TK::Kw, open: vec![], close: vec![] });
+            toks.push(Tok { s: format!("{}:", n), k: TK::Term, open: vec![], close: vec![] });
+            toks.push(Tok { s: format!("<{}>", iri), k: TK::Term, open: vec![], close: vec![] });
+            map.insert(n.to_string(), Value::from(iri));
+        }
+        (toks, Value::Object(map))
+    }
+}
+
+/// Normal form of a parsed tree: a group that is the whole pattern of a SELECT, GRAPH,
+/// UNION branch or WHERE clause may be represented as `Join([x])` or as `x` (its scope is
+/// explicit either way); inside a sequence of siblings the two are different trees.
+fn unwrap_whole_pattern_joins(v: &Value, inside_join_list: bool) -> Value {
+    match v {
+        Value::Object(m) => {
+            if !inside_join_list && m.len() == 1 {
+                if let Some(Value::Array(a)) = m.get("join") {
+                    if a.len() == 1 {
+                        return unwrap_whole_pattern_joins(&a[0], false);
+                    }
+                }
+            }
+            Value::Object(
+                m.iter()
+                    .map(|(k, x)| {
+                        let nv = if k == "join" {
+                            match x {
+                                Value::Array(a) => Value::Array(a.iter().map(|e| unwrap_whole_pattern_joins(e, true)).collect()),
+                                other => other.clone(),
+                            }
+                        } else {
+                            unwrap_whole_pattern_joins(x, false)
+                        };
+                        (k.clone(), nv)
+                    })
+                    .collect(),
+            )
+        }
+        Value::Array(a) => Value::Array(a.iter().map(|e| unwrap_whole_pattern_joins(e, false)).collect()),
+        _ => v.clone(),
+    }
+}
+
+/// remove the monitor's bookkeeping keys from an expected tree
+fn strip_marks(v: &Value) -> Value {
+    match v {
+        Value::Object(m) => Value::Object(m.iter().filter(|(k, _)| k.as_str() != "$group_span").map(|(k, x)| (k.clone(), strip_marks(x))).collect()),
+        Value::Array(a) => Value::Array(a.iter().map(strip_marks).collect()),
+        _ => v.clone(),
+    }
+}
+
+// ---------------------------------------------------------------------------------------
+// generated cases
+
+pub struct Printed {
+    pub toks: Vec<Tok>,
+    pub nspans: usize,
+    /// expected (strict entry point, alias-enabled entry point); None = must be rejected
+    pub strict: Option<Value>,
+    pub alias: Option<Value>,
+    prefixes: Value,
+    pub is_select: bool,
+    group_span: Option<usize>,
+    feats: BTreeSet<String>,
+    nodes: usize,
+    tree_debug: String,
+}
+
+fn small_state(r: &mut Rng) -> ds::Dataset {
+    let v = ds::Vocab { n_ent: 4, n_pred: 4, n_graph: 2, n_num: 4, n_word: 2 };
+    let mut d = ds::gen_dataset(r, &v, 6);
+    d.graphs.insert(ds::graph(0));
+    d.graphs.insert(ds::graph(1));
+    d
+}
+
+/// one generated request, printed into tokens together with its normal form
+pub fn gen_printed(r: &mut Rng, decor: Rng, exotic: usize, only: Option<&'static str>) -> Printed {
+    let state = small_state(r);
+    let mut pr = Pr::new(decor, exotic);
+    pr.only = only;
+    if r.chance(65, 100) {
+        let mut g = Gen::new(r, &state, 4, 4, 4);
+        g.max_depth = 3;
+        let (q, _) = g.gen_select(0, true);
+        let v = pr.select(&q);
+        let gs = v["$group_span"].as_u64().map(|x| x as usize);
+        let (pro, pmap) = pr.prologue();
+        let mut toks = pro;
+        toks.extend(pr.toks.drain(..));
+        let v = strip_marks(&v);
+        Printed { toks, nspans: pr.nspans, strict: Some(json!({ "select": v })), alias: Some(json!({ "select": v })), prefixes: pmap, is_select: true, group_span: gs, feats: pr.feats, nodes: pr.nodes, tree_debug: format!("{:?}", q) }
+    } else {
+        let mut ug = UGen { r, n_ent: 4, n_pred: 4, n_num: 4, n_graph: 2 };
+        let u = ug.gen(&state);
+        let (s, a) = pr.update(&u);
+        let (pro, pmap) = pr.prologue();
+        let mut toks = pro;
+        toks.extend(pr.toks.drain(..));
+        Printed { toks, nspans: pr.nspans, strict: s.map(|v| json!({ "update": strip_marks(&v) })), alias: a.map(|v| json!({ "update": strip_marks(&v) })), prefixes: pmap, is_select: false, group_span: None, feats: pr.feats, nodes: pr.nodes, tree_debug: format!("{:?}", u) }
+    }
+}
+
+fn class_at(p: &Printed, laid: &Laid, pos: i64) -> String {
+    if pos < 0 {
+        return "unknown".into();
+    }
+    let pos = pos as usize;
+    for (i, (a, b)) in laid.tok_at.iter().enumerate() {
+        if pos < *b || i + 1 == laid.tok_at.len() {
+            let t = &p.toks[i];
+            let _ = a;
+            return match t.k {
+                TK::Kw => format!("keyword:{}", t.s),
+                TK::Sym | TK::Spaced => format!("symbol:{}", t.s),
+                TK::Term => format!("term:{}", term_class(&t.s)),
+            };
+        }
+    }
+    "end_of_input".into()
+}
+
+/// report what an entry point did with a printed tree against what it had to do
+#[allow(clippy::too_many_arguments)]
+fn judge_faithful(ctx: &mut Ctx, pool: &mut Pool, k: u64, p: &Printed, laid: &Laid, entry: &str, text: &str, expected: Option<Value>, expected_collapsed: Option<Value>, expected_rest: usize, style: &Style) {
+    ctx.add_evals(1);
+    ctx.count(&format!("parses.{}", entry), 1);
+    let reply = pool.ask(entry, true, text);
+    let witness = |extra: Value| json!({"entry": entry, "text": clip(text, 1500), "generated_tree": clip(&p.tree_debug, 1200), "layout": format!("{:?}", style), "observed": extra});
+    match reply {
+        Reply::Ok { rest, dump } => {
+            ctx.count(&format!("accepted.{}", entry), 1);
+            let Some(exp) = expected else {
+                ctx.violation(json!({"kind": "request_outside_the_entry_points_grammar_accepted", "entry": entry}), witness(json!({ "dump": dump })));
+                return;
+            };
+            match rest.parse::<usize>() {
+                Ok(n) if n == expected_rest => {}
+                _ => {
+                    ctx.violation(json!({"kind": "unconsumed_rest_wrong", "entry": entry}), witness(json!({"rest": rest, "expected_rest_len": expected_rest})));
+                    return;
+                }
+            }
+            let got = unwrap_whole_pattern_joins(&dump.unwrap_or(Value::Null), false);
+            if let Some((path, e, g)) = diff(&exp, &got, "") {
+                // is the difference exactly the collapse of scope-bearing single-element groups?
+                let collapsed = expected_collapsed.map(|c| diff(&c, &got, "").is_none()).unwrap_or(false);
+                if collapsed {
+                    ctx.count("trees_that_lost_the_scope_of_a_single_element_group", 1);
+                    ctx.violation(json!({"kind": "nesting_lost", "cause": "group_holding_only_a_filter_or_bind_is_merged_into_the_enclosing_group"}), witness(json!({"first_difference_at": path, "expected": e, "parsed": g})));
+                } else {
+                    let cause = attribute(ctx, pool, k, false);
+                    ctx.violation(json!({"kind": "tree_differs", "at": path, "cause": cause}), witness(json!({"first_difference_at": path, "expected": e, "parsed": clip(&g.to_string(), 600)})));
+                }
+            } else {
+                ctx.count("trees_equal_to_the_normal_form", 1);
+            }
+        }
+        Reply::Err { code, wher, pos, .. } => {
+            ctx.count(&format!("rejected.{}", entry), 1);
+            if expected.is_some() {
+                let at = class_at(p, laid, if entry == "group" { -1 } else { pos });
+                let cause = attribute(ctx, pool, k, true);
+                ctx.violation(json!({"kind": "valid_query_rejected", "cause": cause}), witness(json!({"error_kind": code, "error_slice": wher, "offset": pos, "token_at_offset": at})));
+            } else {
+                ctx.count("requests_correctly_refused", 1);
+            }
+        }
+        other => report_crash(ctx, entry, text, &other, "faithful"),
+    }
+}
+
+/// totality verdicts shared by all phases
+fn report_crash(ctx: &mut Ctx, entry: &str, text: &str, r: &Reply, what: &str) {
+    match r {
+        Reply::Panic(msg) => {
+            ctx.count("panics", 1);
+            let dropping = msg.starts_with("DROP ");
+            ctx.violation(json!({"kind": "panic", "site": stable_site(msg), "while": if dropping { "dropping_the_tree" } else { "parsing" }}), json!({"entry": entry, "input": clip(text, 1200), "input_len": text.len(), "panic": clip(msg, 400), "workload": what}));
+        }
+        Reply::Died { signal, code, stderr, during_drop } => {
+            ctx.count("worker_deaths", 1);
+            let cause = if stderr.contains("overflowed its stack") { "stack_overflow".to_string() } else if let Some(s) = signal { format!("signal_{}", s) } else { format!("exit_code_{:?}_without_verdict", code) };
+            ctx.violation(json!({"kind": "process_death", "cause": cause, "while": if *during_drop { "dropping_the_tree" } else { "parsing" }, "recursion": "not_established"}), json!({"entry": entry, "input": clip(text, 1200), "input_len": text.len(), "signal": signal, "exit_code": code, "stderr": clip(stderr, 300), "workload": what}));
+        }
+        Reply::Timeout => {
+            ctx.count("worker_timeouts", 1);
+            ctx.inconclusive(&format!("worker did not answer within the watchdog for entry {} on an input of {} bytes ({})", entry, text.len(), what));
+        }
+        Reply::Bad(m) => ctx.inconclusive(&format!("worker protocol problem: {}", clip(m, 200))),
+        _ => {}
+    }
+}
+
+/// case k of the faithful phase, printed normally or with exactly one optional feature
+fn faithful_case(ctx: &Ctx, k: u64, only: Option<&'static str>) -> Printed {
+    let mut r = ctx.rng(k);
+    let exotic = *r.pick(&[0usize, 10, 25]);
+    gen_printed(&mut r, ctx.rng_labeled("decor", k), exotic, only)
+}
+
+/// Which single printing feature reproduces the failure of case k? The tree is printed
+/// again in the plainest way plus exactly one optional feature (or one layout property)
+/// and parsed again; the first one that fails the same way is the established cause.
+fn attribute(ctx: &mut Ctx, pool: &mut Pool, k: u64, rejected: bool) -> String {
+    if let Some(c) = pool.attributed.get(&(k, rejected)) {
+        return c.clone();
+    }
+    let c = attribute_uncached(ctx, pool, k, rejected);
+    pool.attributed.insert((k, rejected), c.clone());
+    c
+}
+
+fn attribute_uncached(ctx: &mut Ctx, pool: &mut Pool, k: u64, rejected: bool) -> String {
+    let plain = Style { tight: 0, comments: 0, case: 0 };
+    let mut fails = |ctx: &mut Ctx, pool: &mut Pool, p: &Printed, st: &Style| -> bool {
+        let mut lr = Rng::new(7);
+        let laid = layout(&p.toks, p.nspans, &mut lr, st);
+        let Some(exp) = p.alias.as_ref() else { return false };
+        let exp = json!({"prefixes": p.prefixes, "sparql": resolve(exp, &laid, false), "ext": {}});
+        ctx.add_evals(1);
+        ctx.count("attribution_parses", 1);
+        match pool.ask("combined_alias", true, &laid.text) {
+            Reply::Ok { dump, .. } => !rejected && diff(&exp, &unwrap_whole_pattern_joins(&dump.unwrap_or(Value::Null), false), "").is_some(),
+            Reply::Err { .. } => rejected,
+            _ => false,
+        }
+    };
+    let base = faithful_case(ctx, k, Some(""));
+    if fails(ctx, pool, &base, &plain) {
+        return "plainest_printing_of_the_tree".into();
+    }
+    for f in FEATURES {
+        let p = faithful_case(ctx, k, Some(f));
+        if fails(ctx, pool, &p, &plain) {
+            return f.to_string();
+        }
+    }
+    for (name, st) in [("layout:no_optional_whitespace", Style { tight: 100, comments: 0, case: 0 }), ("layout:comments", Style { tight: 0, comments: 100, case: 0 }), ("layout:lower_case_keywords", Style { tight: 0, comments: 0, case: 1 }), ("layout:mixed_case_keywords", Style { tight: 0, comments: 0, case: 2 })] {
+        if fails(ctx, pool, &base, &st) {
+            return name.into();
+        }
+    }
+    "not_reproduced_by_a_single_printing_feature".into()
+}
+
+fn phase_faithful(ctx: &mut Ctx, pool: &mut Pool, total: u64, frac: f64) {
+    ctx.phase("faithful", total);
+    while ctx.within(frac) {
+        let Some(k) = ctx.next_case() else { break };
+        let p = faithful_case(ctx, k, None);
+        for f in &p.feats {
+            ctx.note("features_printed", f);
+        }
+        ctx.max("max_tokens_in_a_query", p.toks.len() as u64);
+        let strict_scopes = |v: &Option<Value>, laid: &Laid, s: bool| v.as_ref().map(|v| resolve(v, laid, s));
+        for li in 0..2u64 {
+            let mut lr = ctx.rng_labeled("layout", k * 2 + li);
+            let style = random_style(&mut lr);
+            let laid = layout(&p.toks, p.nspans, &mut lr, &style);
+            ctx.count(&format!("layouts.case_{}", style.case), 1);
+            if style.tight == 100 {
+                ctx.count("layouts.no_optional_whitespace", 1);
+            }
+            if laid.comments {
+                ctx.count("layouts.with_comments", 1);
+            }
+            if !laid.text.is_ascii() {
+                ctx.count("texts_with_multibyte_characters", 1);
+            }
+            let wrap = |v: Option<Value>, pf: &Value| v.map(|v| json!({"prefixes": pf, "sparql": v, "ext": {}}));
+            // whole-request entry points
+            let es = strict_scopes(&p.strict, &laid, true);
+            let ec = strict_scopes(&p.strict, &laid, false);
+            judge_faithful(ctx, pool, k, &p, &laid, "combined", &laid.text, wrap(es.clone(), &p.prefixes), wrap(ec.clone(), &p.prefixes), 0, &style);
+            let as_ = strict_scopes(&p.alias, &laid, true);
+            let ac = strict_scopes(&p.alias, &laid, false);
+            judge_faithful(ctx, pool, k, &p, &laid, "combined_alias", &laid.text, wrap(as_, &p.prefixes), wrap(ac, &p.prefixes), 0, &style);
+            if p.is_select {
+                let sel = |v: &Option<Value>| v.as_ref().map(|v| v["select"].clone());
+                judge_faithful(ctx, pool, k, &p, &laid, "sparql", &laid.text, sel(&es), sel(&ec), 0, &style);
+                // the group alone, followed by text that must be left alone
+                if let Some(gs) = p.group_span {
+                    let (a, b) = laid.spans[gs];
+                    let tail = *lr.pick(&["", "", " tail", "}", " . ?x ?y ?z", "\n# c", " é", "LIMIT 3", "{"]);
+                    let text = format!("{}{}", &laid.text[a..b], tail);
+                    let pat = |v: &Option<Value>| v.as_ref().map(|v| v["select"]["pattern"].clone());
+                    judge_faithful(ctx, pool, k, &p, &laid, "group", &text, pat(&es), pat(&ec), tail.len(), &style);
+                }
+            }
+            if p.nodes >= 3 {
+                ctx.nontrivial(hash_str(&format!("{}|{}", p.tree_debug, laid.text)));
+            }
+            if ctx.wants_sample() && p.nodes >= 6 && li == 1 {
+                ctx.sample(json!({"text": clip(&laid.text, 900), "layout": format!("{:?}", style), "normal_form": clip(&es.as_ref().map(|v| v.to_string()).unwrap_or_else(|| "must be rejected by the strict entry point".into()), 900)}));
+            }
+        }
+    }
+}
+
+// ---------------------------------------------------------------------------------------
+// totality workloads
+
+pub const EXT_SEEDS: [&str; 16] = [
+    "RULE :OverheatingAlert :-\nCONSTRUCT {\n    ?room ex:overheatingAlert true .\n}\nWHERE {\n    ?reading a ex:Sensor ;\n             ex:room ?room ;\n             ex:temperature ?temp\n    FILTER (?temp > 80)\n}",
+    "PREFIX ex: <http://example.org/>\nRULE :TransitiveRelated PROB(combination=independent, threshold=0.3, confidence=0.9) :-\nCONSTRUCT { ?a ex:related ?c . }\nWHERE { ?a ex:related ?b . ?b ex:related ?c . NOT ?a ex:blocked ?c }",
+    "RULE :Hybrid PROB(provenance=hybrid, threshold=0.7) :- CONSTRUCT { ?x :risk :high } WHERE { ?x :score ?s FILTER(?s > 3) }",
+    "RULE :W :- RSTREAM FROM NAMED WINDOW :w ON :stream [RANGE PT10M STEP PT1M] WITH POLICY (timeout=5s, fallback=drop) CONSTRUCT { ?s :p ?o } WHERE { WINDOW :w { ?s :q ?o . } }",
+    "RULE :OverheatingAlert :-\nCONSTRUCT { ?room ex:overheatingAlert true . }\nWHERE { ?reading ex:room ?room ; ex:temperature ?temp FILTER (?temp > 80) }\nML.PREDICT(MODEL \"temperaturePredictor\",\n INPUT { SELECT ?room ?humidity WHERE { ?room :humidity ?humidity } },\n OUTPUT ?predictedTemp)",
+    "REGISTER ISTREAM <http://out/stream> AS\nSELECT *\nFROM NAMED WINDOW :w ON ?stream [RANGE 3 STEP 1]\nWHERE { WINDOW :w { ?s a <http://test/IType> . } }",
+    "RETRIEVE SOME ACTIVE STREAM ?s FROM <http://my.org/catalog>\nWITH {\n    ?s a :Stream .\n    ?s :hasDescriptor ?descriptor .\n    ?meta :hasLocation <:somelocation>.\n}\nREGISTER RSTREAM <http://out/stream> AS\nSELECT *\nFROM NAMED WINDOW :wind ON ?s [RANGE PT10M STEP PT1M]\nFROM NAMED WINDOW :wind2 ON :uri2 [SLIDING PT5M STEP PT30S REPORT ON_WINDOW_CLOSE TICK TIME_DRIVEN]\nWHERE {\n    WINDOW :wind { ?obs a ssn:Observation . ?obs ssn:hasSimpleResult ?value . }\n    WINDOW :wind2 { ?obs2 a ssn:Observation . }\n}",
+    "PREFIX ex: <http://example.org/>\n\nMODEL \"digit_model\" {\n    ARCH MLP { HIDDEN [16, 8] }\n    OUTPUT EXCLUSIVE { \"A\", \"B\", \"C\" }\n}\n\nNEURAL RELATION ex:predictedDigit USING MODEL \"digit_model\" {\n    INPUT {\n        ?sample ex:x0 ?x0 .\n        ?sample ex:x1 ?x1 .\n    }\n    FEATURES { ?x0, ?x1 }\n}\n\nML.PREDICT(MODEL \"digit_model\",\n    INPUT {\n        SELECT ?sample ?x0 ?x1\n        WHERE {\n            ?sample ex:x0 ?x0 .\n            ?sample ex:x1 ?x1 .\n        }\n    },\n    OUTPUT ?label\n)",
+    "TRAIN NEURAL RELATION ex:predictedDigit {\n    DATA {\n        ?sample ex:label ?label .\n    }\n    LABEL ?label\n    TARGET { ?sample ex:predictedDigit ?label }\n    LOSS cross_entropy\n    OPTIMIZER adam\n    LEARNING_RATE 0.001\n    EPOCHS 50\n    BATCH_SIZE 16\n    SAVE_TO \"mnist_digit_model.bin\"\n}",
+    "TRAIN NEURAL RELATION ex:predictedDigit {\n    QUERY {\n        SELECT ?sample ?p0 ?label\n        WHERE { ?sample ex:pixel_0 ?p0 . ?sample ex:label ?label . }\n    }\n    LABEL ?label\n    TARGET { ?sample ex:predictedDigit ?label }\n    LOSS mse\n    OPTIMIZER sgd\n    LEARNING_RATE 0.5\n    EPOCHS 5\n    BATCH_SIZE 2\n}",
+    "MODEL \"m\" {\n ARCH MLP { HIDDEN [64, 32] }\n OUTPUT BINARY { \"yes\" }\n}",
+    "ML.PREDICT(MODEL \"fraud_predictor\",\n INPUT { SELECT ?tx ?amt WHERE { ?tx ex:amount ?amt . FILTER(?amt > 10) } },\n OUTPUT ?score)",
+    "FROM NAMED WINDOW <http://w/1> ON <http://s/1> [TUMBLING 10 REPORT PERIODIC TICK TUPLE_DRIVEN] WITH POLICY steal",
+    "PREFIX : <http://d/> INSERT { :a :b :c }",
+    "PREFIX ex: <http://example.org/> DELETE { ?s ex:p ?o } INSERT { GRAPH ex:g { ?s ex:q ?o } } WHERE { ?s ex:p ?o . FILTER(?o != 3) }",
+    "SELECT ?s (SUM(?n) AS ?t) FROM <http://k/g0> FROM NAMED <http://k/g1> WHERE { GRAPH ?g { ?s <http://k/p2> ?n } { ?s ?p << ?a ?b ?c >> } UNION { VALUES (?s ?n) { (<http://k/e1> 1) (UNDEF \"x\"@en) } } BIND(CONCAT(\"#\", ?n) AS ?c) } GROUP BY ?s ORDER BY DESC(?t) LIMIT 10",
+];
+
+const EXT_ENTRIES: [&str; 16] = ["standalone_rule", "rule", "ml_predict", "model", "neural", "train", "register", "retrieve", "window", "where", "filter", "insert", "delete", "values", "bind", "rule_call"];
+
+pub const DICT: [&str; 64] = [
+    "SELECT", "DISTINCT", "WHERE", "FILTER", "GRAPH", "UNION", "BIND", "VALUES", "UNDEF", "AS", "FROM", "NAMED", "GROUP BY", "ORDER BY", "LIMIT", "INSERT", "DELETE", "DATA", "PREFIX", "RULE", "CONSTRUCT", "REGISTER", "RETRIEVE", "MODEL", "ML.PREDICT(", "WINDOW", "NOT", "PROB(", "INPUT {", "OUTPUT", "{", "}", "(", ")", "<<", ">>", "{|", "|}", "^^", "@en", "\"", "'''", "\"\"\"", "\\u00", "\\U0001F600", "%4", "_:", "?", "$", ":-", ":", "#", "\n", ".", ";", ",", "!", "&&", "<", ">", "99999999999999999999", "18446744073709551616", "PT9999999999999999999H", "a",
+];
+
+pub const MB: [&str; 10] = ["é", "€", "😀", "\u{0301}", "\u{00A0}", "\u{2028}", "\u{FEFF}", "\u{00B7}", "\u{3000}", "ß"];
+
+pub fn seed_text(ctx: &Ctx, r: &mut Rng, label: &str, k: u64) -> (String, bool) {
+    if r.chance(30, 100) {
+        (r.pick(&EXT_SEEDS).to_string(), true)
+    } else {
+        let exotic = *r.pick(&[0usize, 25, 60]);
+        let p = gen_printed(r, ctx.rng_labeled(label, k), exotic, None);
+        let st = random_style(r);
+        let laid = layout(&p.toks, p.nspans, r, &st);
+        (laid.text, false)
+    }
+}
+
+pub fn char_offsets(s: &str) -> Vec<usize> {
+    let mut v: Vec<usize> = s.char_indices().map(|(i, _)| i).collect();
+    v.push(s.len());
+    v
+}
+
+pub fn mutate(r: &mut Rng, s: &str, other: &str, kinds: &mut Vec<&'static str>) -> String {
+    let offs = char_offsets(s);
+    let at = |r: &mut Rng| offs[r.below(offs.len())];
+    match r.below(11) {
+        0 => {
+            kinds.push("byte_flip");
+            let mut b = s.as_bytes().to_vec();
+            if !b.is_empty() {
+                let i = r.below(b.len());
+                b[i] = r.below(256) as u8;
+            }
+            String::from_utf8_lossy(&b).into_owned()
+        }
+        1 => {
+            kinds.push("byte_insert");
+            let mut b = s.as_bytes().to_vec();
+            let i = r.below(b.len() + 1);
+            for _ in 0..r.range(1, 3) {
+                b.insert(i, r.below(256) as u8);
+            }
+            String::from_utf8_lossy(&b).into_owned()
+        }
+        2 => {
+            kinds.push("byte_delete");
+            let mut b = s.as_bytes().to_vec();
+            if !b.is_empty() {
+                let i = r.below(b.len());
+                let n = r.range(1, 8).min(b.len() - i);
+                b.drain(i..i + n);
+            }
+            String::from_utf8_lossy(&b).into_owned()
+        }
+        3 => {
+            kinds.push("splice");
+            let o2 = char_offsets(other);
+            let (a, b) = (o2[r.below(o2.len())], o2[r.below(o2.len())]);
+            let (a, b) = (a.min(b), a.max(b));
+            let i = at(r);
+            format!("{}{}{}", &s[..i], &other[a..b], &s[i..])
+        }
+        4 | 5 => {
+            kinds.push("token_insert");
+            let i = at(r);
+            let sp = if r.coin() { " " } else { "" };
+            format!("{}{}{}{}{}", &s[..i], sp, r.pick(&DICT), sp, &s[i..])
+        }
+        6 => {
+            kinds.push("multibyte_insert");
+            let i = at(r);
+            format!("{}{}{}", &s[..i], r.pick(&MB), &s[i..])
+        }
+        7 => {
+            kinds.push("truncate");
+            s[..at(r)].to_string()
+        }
+        8 => {
+            kinds.push("duplicate_span");
+            let (a, b) = (at(r), at(r));
+            let (a, b) = (a.min(b), a.max(b));
+            format!("{}{}{}", &s[..b], &s[a..b], &s[b..])
+        }
+        9 => {
+            kinds.push("swap_words");
+            let mut w: Vec<&str> = s.split(' ').collect();
+            if w.len() >= 2 {
+                let (i, j) = (r.below(w.len()), r.below(w.len()));
+                w.swap(i, j);
+            }
+            w.join(" ")
+        }
+        _ => {
+            kinds.push("char_replace");
+            let i = r.below(offs.len().max(2) - 1);
+            let a = offs[i];
+            let b = offs.get(i + 1).copied().unwrap_or(s.len());
+            let rep = if r.coin() { r.pick(&MB).to_string() } else { ((0x20 + r.below(0x5f)) as u8 as char).to_string() };
+            format!("{}{}{}", &s[..a], rep, &s[b..])
+        }
+    }
+}
+
+struct Seen {
+    accepted: bool,
+    past_start: bool,
+    dump: Option<Value>,
+}
+
+/// one hostile input through one entry point: totality checks; returns what was seen
+fn judge_total(ctx: &mut Ctx, pool: &mut Pool, entry: &str, text: &str, want_dump: bool, what: &str) -> Seen {
+    ctx.add_evals(1);
+    ctx.count(&format!("parses.{}", entry), 1);
+    let r = pool.ask(entry, want_dump, text);
+    match r {
+        Reply::Ok { rest, dump } => {
+            ctx.count(&format!("accepted.{}", entry), 1);
+            let whole = matches!(entry, "combined" | "combined_alias" | "sparql");
+            match rest.parse::<usize>() {
+                Ok(n) => {
+                    if whole && n != 0 && !text[text.len() - n..].trim().is_empty() {
+                        ctx.violation(json!({"kind": "accepted_without_consuming_the_whole_input", "entry": entry}), json!({"input": clip(text, 1200), "unconsumed": clip(&text[text.len() - n..], 200), "workload": what}));
+                    }
+                    if n > text.len() {
+                        ctx.violation(json!({"kind": "rest_longer_than_input", "entry": entry}), json!({"input": clip(text, 1200), "rest_len": n}));
+                    }
+                }
+                Err(_) => {
+                    // "inner:off:len" / "foreign": the rest is not a suffix of the input
+                    ctx.violation(json!({"kind": "rest_is_not_a_suffix_of_the_input", "entry": entry}), json!({"input": clip(text, 1200), "rest": rest, "workload": what}));
+                }
+            }
+            Seen { accepted: true, past_start: true, dump }
+        }
+        Reply::Err { code, wher, pos, .. } => {
+            ctx.count(&format!("rejected.{}", entry), 1);
+            ctx.note("error_kinds", &code);
+            if wher == "inner" {
+                ctx.count("errors_whose_slice_is_not_a_suffix_of_the_input", 1);
+            }
+            Seen { accepted: false, past_start: pos > 0, dump: None }
+        }
+        other => {
+            report_crash(ctx, entry, text, &other, what);
+            Seen { accepted: false, past_start: true, dump: None }
+        }
+    }
+}
+
+/// the entry points that share one grammar must agree on the same text
+fn cross_check(ctx: &mut Ctx, text: &str, combined: &Seen, alias: &Seen, sparql: &Seen, what: &str) {
+    let only_select = |s: &Seen| s.dump.as_ref().map(|d| d["sparql"].get("select").is_some() && d["ext"].as_object().map(|m| m.is_empty()).unwrap_or(false)).unwrap_or(false);
+    if combined.accepted && !alias.accepted {
+        ctx.violation(json!({"kind": "entry_points_disagree", "pair": "combined_accepts_but_alias_enabled_variant_rejects"}), json!({"input": clip(text, 1200), "workload": what}));
+    }
+    if combined.accepted && alias.accepted && combined.dump.is_some() && combined.dump != alias.dump {
+        ctx.violation(json!({"kind": "entry_points_disagree", "pair": "combined_and_alias_enabled_variant_build_different_trees"}), json!({"input": clip(text, 1200), "workload": what}));
+    }
+    if sparql.accepted && !(combined.accepted && only_select(combined)) {
+        ctx.violation(json!({"kind": "entry_points_disagree", "pair": "parse_sparql_query_accepts_what_parse_combined_query_does_not"}), json!({"input": clip(text, 1200), "workload": what}));
+    }
+    if combined.accepted && only_select(combined) && !sparql.accepted {
+        ctx.violation(json!({"kind": "entry_points_disagree", "pair": "parse_combined_query_accepts_a_plain_select_that_parse_sparql_query_rejects"}), json!({"input": clip(text, 1200), "workload": what}));
+    }
+    if sparql.accepted && combined.accepted {
+        if let (Some(a), Some(b)) = (&sparql.dump, &combined.dump) {
+            if *a != b["sparql"]["select"] {
+                ctx.violation(json!({"kind": "entry_points_disagree", "pair": "parse_sparql_query_and_parse_combined_query_build_different_trees"}), json!({"input": clip(text, 1200), "workload": what}));
+            }
+        }
+    }
+}
+
+fn all_main_entries(ctx: &mut Ctx, pool: &mut Pool, text: &str, what: &str) -> bool {
+    let c = judge_total(ctx, pool, "combined", text, true, what);
+    let a = judge_total(ctx, pool, "combined_alias", text, true, what);
+    let s = judge_total(ctx, pool, "sparql", text, true, what);
+    cross_check(ctx, text, &c, &a, &s, what);
+    // the group parser is a prefix parser: feed it the text from its first brace on
+    let mut past = c.past_start || a.past_start || s.past_start;
+    if let Some(i) = text.find('{') {
+        let g = judge_total(ctx, pool, "group", &text[i..], false, what);
+        past = past || g.past_start;
+    }
+    if c.accepted || a.accepted || s.accepted {
+        ctx.count("hostile_inputs_accepted_by_some_entry_point", 1);
+    }
+    past
+}
+
+fn phase_mutate(ctx: &mut Ctx, pool: &mut Pool, total: u64, frac: f64) {
+    ctx.phase("mutate", total);
+    while ctx.within(frac) {
+        let Some(k) = ctx.next_case() else { break };
+        let mut r = ctx.rng(k);
+        let (seed, ext) = seed_text(ctx, &mut r, "seed", k);
+        let (other, _) = seed_text(ctx, &mut r, "other", k);
+        let mut kinds = vec![];
+        let mut text = seed;
+        for _ in 0..r.range(1, 3) {
+            text = mutate(&mut r, &text, &other, &mut kinds);
+        }
+        for m in &kinds {
+            ctx.count(&format!("mutations.{}", m), 1);
+        }
+        if !text.is_ascii() {
+            ctx.count("texts_with_multibyte_characters", 1);
+        }
+        let what = format!("mutate[{}]", kinds.join("+"));
+        let past = all_main_entries(ctx, pool, &text, &what);
+        // extension primitives: the one that fits the seed best, and a random one
+        let mut es: Vec<&str> = vec![*r.pick(&EXT_ENTRIES)];
+        if ext {
+            let t = text.trim_start();
+            for (kw, e) in [("RULE", "rule"), ("ML.PREDICT", "ml_predict"), ("MODEL", "model"), ("NEURAL", "neural"), ("TRAIN", "train"), ("REGISTER", "register"), ("RETRIEVE", "retrieve"), ("FROM NAMED WINDOW", "window"), ("PREFIX", "standalone_rule")] {
+                if t.starts_with(kw) {
+                    es.push(e);
+                }
+            }
+        }
+        for e in es {
+            // primitives are prefix parsers that start at their keyword
+            judge_total(ctx, pool, e, &text, true, &what);
+        }
+        if past {
+            ctx.nontrivial(hash_str(&text));
+        }
+        if ctx.wants_sample() && kinds.len() >= 2 {
+            ctx.sample(json!({"mutations": kinds, "input": clip(&text, 600)}));
+        }
+    }
+}
+
+/// hand-written seeds for the every-offset sweep: every token scanner of the anchor list
+pub const SWEEP_SEEDS: [&str; 10] = [
+    "PREFIX k: <http://k/> SELECT ?s WHERE { ?s k:p1 k:e1 . ?s a k:C ; k:q \"lit\"@en , 'x'^^k:dt , 12.5e-3 . _:b1 k:r _:b.2 }",
+    "SELECT * WHERE { ?s x:y ?o }",
+    "SELECT * WHERE { <http://k/e1> <http://k/p> \"a\\\"b\\u00e9\" . << ?a k:p 3 >> k:q true FILTER(?a != k:e2 && !(?o < 3.5)) }",
+    "SELECT ?a (SUM(?n) AS ?t) WHERE { GRAPH k:g1 { ?a k:p2 ?n } VALUES (?a ?n) { (k:e1 1) (UNDEF \"w\") } BIND(CONCAT(\"#\", ?n) AS ?c) } GROUP BY ?a ORDER BY DESC(?t) ?a LIMIT 5",
+    "PREFIX : <http://d/> INSERT DATA { :a :b \"\"\"long\nstring\"\"\" . GRAPH :g { :a :b -5 } }",
+    "DELETE { ?s k:p ?o } INSERT { ?s k:q _:n } WHERE { ?s k:p ?o . { ?s k:r ?x } UNION { ?s k:r2 ?x } }",
+    "DELETE WHERE { GRAPH ?g { ?s ?p ?o } }",
+    "SELECT * WHERE { ?s k:a%41\\-b k:x.y.z . }# trailing comment",
+    "RULE :R PROB(combination=min, threshold=0.5) :- CONSTRUCT { ?a :p ?b . } WHERE { ?a :q ?b FILTER(?b > 1) }",
+    "REGISTER RSTREAM <http://o/s> AS SELECT * FROM NAMED WINDOW :w ON ?s [RANGE PT10M STEP PT1M] WHERE { WINDOW :w { ?x a :T . } }",
+];
+
+fn phase_everyoffset(ctx: &mut Ctx, pool: &mut Pool, total: u64, frac: f64) {
+    ctx.phase("everyoffset", total);
+    while ctx.within(frac) {
+        let Some(k) = ctx.next_case() else { break };
+        let mut r = ctx.rng(k);
+        // the hand-written seeds first, then generated ones with exotic terms
+        let seed = if (k as usize) < SWEEP_SEEDS.len() {
+            SWEEP_SEEDS[k as usize].to_string()
+        } else {
+            let p = gen_printed(&mut r, ctx.rng_labeled("decor", k), 60, None);
+            let st = Style { tight: 60, comments: 10, case: r.below(4) as u8 };
+            let t = layout(&p.toks, p.nspans, &mut r, &st).text;
+            if t.chars().count() > 260 {
+                continue;
+            }
+            t
+        };
+        let offs = char_offsets(&seed);
+        ctx.max("everyoffset.max_seed_chars", offs.len() as u64);
+        let entries: Vec<&str> = if seed.starts_with("RULE") { vec!["combined", "standalone_rule", "rule"] } else if seed.starts_with("REGISTER") { vec!["combined", "register"] } else { vec!["combined_alias", "sparql"] };
+        let mut past = false;
+        for &i in &offs {
+            // 2-, 3- and 4-byte characters (and two more drawn from the pool) at this offset
+            let extra1 = *r.pick(&MB);
+            let extra2 = *r.pick(&["\\", "\"", "<", "{", "#", "'", ":", "\0"]);
+            for ins in ["é", "€", "😀", extra1, extra2] {
+                let t = format!("{}{}{}", &seed[..i], ins, &seed[i..]);
+                for e in &entries {
+                    past |= judge_total(ctx, pool, e, &t, false, "everyoffset:insert").past_start;
+                }
+                ctx.count("everyoffset.insertions", 1);
+                if let Some(b) = t.find('{') {
+                    judge_total(ctx, pool, "group", &t[b..], false, "everyoffset:insert");
+                }
+            }
+            // truncation at this offset
+            let t = &seed[..i];
+            for e in &entries {
+                judge_total(ctx, pool, e, t, false, "everyoffset:truncate");
+            }
+            ctx.count("everyoffset.truncations", 1);
+            // deletion of the character at this offset
+            if i < seed.len() {
+                let n = seed[i..].chars().next().map(|c| c.len_utf8()).unwrap_or(1);
+                let t = format!("{}{}", &seed[..i], &seed[i + n..]);
+                for e in &entries {
+                    judge_total(ctx, pool, e, &t, false, "everyoffset:delete");
+                }
+                ctx.count("everyoffset.deletions", 1);
+            }
+        }
+        ctx.count("everyoffset.seeds_swept_completely", 1);
+        if past {
+            ctx.nontrivial(hash_str(&seed));
+        }
+        if ctx.wants_sample() {
+            ctx.sample(json!({"seed_swept_at_every_offset": seed, "offsets": offs.len()}));
+        }
+    }
+}
+
+/// exhaustive small edits of the hand-written seeds: every pair of words exchanged, every
+/// number replaced by boundary values (fault enumeration over the keyword order and the
+/// numeric conversions of the extension grammars)
+fn phase_systematic(ctx: &mut Ctx, pool: &mut Pool) {
+    const NUMS: [&str; 9] = ["0", "18446744073709551615", "18446744073709551616", "9999999999999999999", "307445734561825861", "5124095576030431", "99999999999999999999999999999999999999999", "-1", "1e400"];
+    let seeds: Vec<&str> = EXT_SEEDS.iter().chain(SWEEP_SEEDS.iter()).copied().collect();
+    ctx.phase("systematic", seeds.len() as u64);
+    while let Some(k) = ctx.next_case() {
+        let seed = seeds[k as usize];
+        let t = seed.trim_start();
+        let mut entries: Vec<&str> = vec!["combined"];
+        for (kw, e) in [("RULE", "rule"), ("ML.PREDICT", "ml_predict"), ("MODEL", "model"), ("TRAIN", "train"), ("REGISTER", "register"), ("RETRIEVE", "retrieve"), ("FROM NAMED WINDOW", "window"), ("PREFIX", "standalone_rule"), ("SELECT", "sparql")] {
+            if t.starts_with(kw) {
+                entries.push(e);
+            }
+        }
+        // words and the white space between them
+        let mut words: Vec<(usize, usize)> = vec![];
+        let mut start: Option<usize> = None;
+        for (i, c) in seed.char_indices() {
+            if c.is_whitespace() {
+                if let Some(a) = start.take() {
+                    words.push((a, i));
+                }
+            } else if start.is_none() {
+                start = Some(i);
+            }
+        }
+        if let Some(a) = start {
+            words.push((a, seed.len()));
+        }
+        let mut n = 0u64;
+        for i in 0..words.len() {
+            for j in i + 1..words.len() {
+                if !ctx.time_left() {
+                    break;
+                }
+                let (a, b) = (words[i], words[j]);
+                if seed[a.0..a.1] == seed[b.0..b.1] {
+                    continue;
+                }
+                let text = format!("{}{}{}{}{}", &seed[..a.0], &seed[b.0..b.1], &seed[a.1..b.0], &seed[a.0..a.1], &seed[b.1..]);
+                for e in &entries {
+                    judge_total(ctx, pool, e, &text, false, "systematic:swap_two_words");
+                }
+                n += 1;
+            }
+        }
+        ctx.count("systematic.word_swaps", n);
+        // digit runs
+        let b = seed.as_bytes();
+        let mut i = 0;
+        let mut runs = 0u64;
+        while i < b.len() {
+            if b[i].is_ascii_digit() {
+                let mut j = i;
+                while j < b.len() && b[j].is_ascii_digit() {
+                    j += 1;
+                }
+                for v in NUMS {
+                    let text = format!("{}{}{}", &seed[..i], v, &seed[j..]);
+                    for e in &entries {
+                        judge_total(ctx, pool, e, &text, false, "systematic:boundary_number");
+                    }
+                    runs += 1;
+                }
+                i = j;
+            } else {
+                i += 1;
+            }
+        }
+        ctx.count("systematic.boundary_numbers", runs);
+        ctx.nontrivial(hash_str(seed));
+        if ctx.wants_sample() {
+            ctx.sample(json!({"seed": clip(seed, 300), "word_pairs_exchanged": n, "numbers_replaced": runs}));
+        }
+    }
+}
+
+/// complete requests followed by text that cannot continue them
+fn phase_trailing(ctx: &mut Ctx, pool: &mut Pool, total: u64, frac: f64) {
+    ctx.phase("trailing", total);
+    const JUNK: [&str; 14] = ["}", ")", "<http://k/junk>", "\"junk\"", ".", "SELECT * WHERE { ?s ?p ?o }", "WHERE", "junk", "é", ";", "{ }", "INSERT DATA { <http://a> <http://b> <http://c> }", "x:y", "0"];
+    while ctx.within(frac) {
+        let Some(k) = ctx.next_case() else { break };
+        let mut r = ctx.rng(k);
+        let p = gen_printed(&mut r, ctx.rng_labeled("decor", k), 10, None);
+        if p.strict.is_none() {
+            continue;
+        }
+        let st = random_style(&mut r);
+        let laid = layout(&p.toks, p.nspans, &mut r, &st);
+        let junk = *r.pick(&JUNK);
+        // the newline ends a final comment and separates `LIMIT 1` from `0`
+        let text = format!("{}\n{}", laid.text, junk);
+        for e in ["combined", "combined_alias", "sparql"] {
+            if e == "sparql" && !p.is_select {
+                continue;
+            }
+            ctx.add_evals(1);
+            ctx.count(&format!("parses.{}", e), 1);
+            match pool.ask(e, false, &text) {
+                Reply::Ok { rest, .. } => {
+                    ctx.violation(json!({"kind": "trailing_input_accepted", "entry": e}), json!({"input": clip(&text, 1200), "junk": junk, "rest": rest}));
+                }
+                Reply::Err { .. } => ctx.count("trailing_input_refused", 1),
+                other => report_crash(ctx, e, &text, &other, "trailing"),
+            }
+        }
+        ctx.nontrivial(hash_str(&text));
+        if ctx.wants_sample() {
+            ctx.sample(json!({ "input": clip(&text, 500) }));
+        }
+    }
+}
+
+// ---------------------------------------------------------------------------------------
+// nesting ladders
+
+struct Construct {
+    name: &'static str,
+    /// the recursion the construct exercises (part of the signature)
+    recursion: &'static str,
+    entry: &'static str,
+    /// deepest rung (flat, iterative constructs stop earlier: they are linear work each)
+    max: usize,
+    build: fn(usize) -> String,
+}
+
+fn rep(s: &str, n: usize) -> String {
+    s.repeat(n)
+}
+
+const CONSTRUCTS: [Construct; 22] = [
+    Construct { name: "balanced_group_braces", recursion: "parse_group_graph_pattern", entry: "combined", max: 100_000, build: |n| format!("SELECT * WHERE {} ?s ?p ?o {}", rep("{", n), rep("}", n)) },
+    Construct { name: "unbalanced_open_braces", recursion: "parse_group_graph_pattern", entry: "group", max: 100_000, build: |n| rep("{", n) },
+    Construct { name: "nested_graph_blocks", recursion: "parse_group_graph_pattern", entry: "sparql", max: 100_000, build: |n| format!("SELECT * WHERE {{ {} ?s ?p ?o {} }}", rep("GRAPH ?g { ", n), rep("}", n)) },
+    Construct { name: "nested_subselects", recursion: "parse_group_graph_pattern", entry: "combined", max: 100_000, build: |n| format!("SELECT * WHERE {{ {} ?s ?p ?o {} }}", rep("{ SELECT * WHERE { ", n), rep("} }", n)) },
+    Construct { name: "nested_union_branches", recursion: "parse_group_graph_pattern", entry: "combined", max: 100_000, build: |n| format!("SELECT * WHERE {{ {} ?s ?p ?o {} }}", rep("{ ?a ?b ?c } UNION { ", n), rep("}", n)) },
+    Construct { name: "update_where_nesting", recursion: "parse_group_graph_pattern", entry: "combined", max: 100_000, build: |n| format!("DELETE {{ ?s ?p ?o }} WHERE {} ?s ?p ?o {}", rep("{", n), rep("}", n)) },
+    Construct { name: "filter_parentheses", recursion: "filter_expression", entry: "combined", max: 100_000, build: |n| format!("SELECT * WHERE {{ ?s ?p ?x FILTER({} ?x = 1 {}) }}", rep("(", n), rep(")", n)) },
+    Construct { name: "filter_negations", recursion: "filter_expression", entry: "filter", max: 100_000, build: |n| format!("FILTER({}(?x = 1))", rep("!", n)) },
+    Construct { name: "filter_unbalanced_parentheses", recursion: "filter_expression", entry: "filter", max: 100_000, build: |n| format!("FILTER({}", rep("(", n)) },
+    Construct { name: "arithmetic_parentheses", recursion: "arithmetic_expression", entry: "combined", max: 100_000, build: |n| format!("SELECT * WHERE {{ ?s ?p ?x FILTER({} ?x {} + 1 = 2) }}", rep("(", n), rep(")", n)) },
+    Construct { name: "nested_quoted_triples", recursion: "quoted_triple", entry: "combined", max: 100_000, build: |n| format!("SELECT * WHERE {{ {} <http://a> <http://b> <http://c> {} <http://p> ?o }}", rep("<< ", n), rep(" >> <http://b> <http://c>", n).trim_end_matches(" <http://b> <http://c>").to_string() + &rep("", 0)) },
+    Construct { name: "unbalanced_quoted_triple_openers", recursion: "quoted_triple", entry: "group", max: 100_000, build: |n| format!("{{ {}", rep("<< ", n)) },
+    Construct { name: "long_and_chain", recursion: "tree_of_left_nested_boolean_operators", entry: "combined", max: 100_000, build: |n| format!("SELECT * WHERE {{ ?s ?p ?x FILTER(?x = 1{}) }}", rep(" && ?x = 1", n)) },
+    Construct { name: "long_or_chain", recursion: "tree_of_left_nested_boolean_operators", entry: "filter", max: 100_000, build: |n| format!("FILTER(?x = 1{})", rep(" || ?x = 1", n)) },
+    Construct { name: "long_arithmetic_chain", recursion: "tree_of_left_nested_arithmetic_operators", entry: "filter", max: 100_000, build: |n| format!("FILTER(?x{} = 2)", rep(" + 1", n)) },
+    Construct { name: "long_bare_arithmetic_chain", recursion: "tree_of_left_nested_arithmetic_operators", entry: "filter", max: 100_000, build: |n| format!("FILTER(?x{})", rep(" * 2", n)) },
+    Construct { name: "long_union_chain", recursion: "none_flat", entry: "combined", max: 30_000, build: |n| format!("SELECT * WHERE {{ {{ ?s ?p ?o }}{} }}", rep(" UNION { ?s ?p ?o }", n)) },
+    Construct { name: "long_object_list", recursion: "none_flat", entry: "combined", max: 30_000, build: |n| format!("SELECT * WHERE {{ ?s ?p 0{} }}", rep(" , 1", n)) },
+    Construct { name: "long_predicate_list", recursion: "none_flat", entry: "combined", max: 30_000, build: |n| format!("INSERT DATA {{ <http://s> <http://p> 0{} }}", rep(" ; <http://p> 1", n)) },
+    Construct { name: "many_statements_and_filters", recursion: "none_flat", entry: "combined", max: 30_000, build: |n| format!("SELECT * WHERE {{ {} }}", rep("?s ?p ?o . FILTER(?o = 1) ", n)) },
+    Construct { name: "many_prefix_declarations_and_values_rows", recursion: "none_flat", entry: "combined", max: 30_000, build: |n| format!("{} SELECT * WHERE {{ VALUES (?a ?b) {{ {} }} }}", rep("PREFIX p: <http://p/> ", n), rep("(1 UNDEF) ", n)) },
+    Construct { name: "rule_prob_and_ml_predict_braces", recursion: "extension_block_scanners", entry: "combined", max: 100_000, build: |n| format!("RULE :R PROB(combination=min, threshold={}0.5{}) :- CONSTRUCT {{ ?a :p ?b }} WHERE {{ ?a :q ?b }} ML.PREDICT(MODEL \"m\", INPUT {{ {} SELECT ?a WHERE {{ ?a :q ?b }} {} }}, OUTPUT ?y)", rep("(", n), rep(")", n), rep("{", n), rep("}", n)) },
+];
+
+const RUNGS: [usize; 9] = [10, 30, 100, 300, 1_000, 3_000, 10_000, 30_000, 100_000];
+
+fn phase_nesting(ctx: &mut Ctx, pool: &mut Pool) {
+    ctx.phase("nesting", CONSTRUCTS.len() as u64);
+    while let Some(k) = ctx.next_case() {
+        let c = &CONSTRUCTS[k as usize];
+        let mut last_ok = 0usize;
+        let mut first_bad: Option<(usize, Reply)> = None;
+        let top = if ctx.thorough() { c.max } else { c.max.min(100_000) };
+        for &n in RUNGS.iter().filter(|n| **n <= top) {
+            let text = (c.build)(n);
+            ctx.add_evals(1);
+            ctx.count(&format!("parses.{}", c.entry), 1);
+            let r = pool.ask(c.entry, false, &text);
+            match &r {
+                Reply::Ok { .. } | Reply::Err { .. } => {
+                    last_ok = n;
+                    ctx.max(&format!("nesting.deepest_survived.{}", c.name), n as u64);
+                    if matches!(r, Reply::Ok { .. }) {
+                        ctx.max(&format!("nesting.deepest_accepted.{}", c.name), n as u64);
+                    }
+                }
+                Reply::Timeout | Reply::Bad(_) => {
+                    report_crash(ctx, c.entry, &text, &r, c.name);
+                    break;
+                }
+                _ => {
+                    first_bad = Some((n, r.clone()));
+                    break;
+                }
+            }
+        }
+        ctx.nontrivial(hash_str(c.name));
+        if let Some((mut bad, mut reply)) = first_bad {
+            // narrow the witness: smallest depth (to ~25 %) at which the worker no longer answers
+            let mut lo = last_ok;
+            while bad - lo > (bad / 4).max(1) {
+                let mid = lo + (bad - lo) / 2;
+                let r = pool.ask(c.entry, false, &(c.build)(mid));
+                ctx.add_evals(1);
+                match r {
+                    Reply::Ok { .. } | Reply::Err { .. } => lo = mid,
+                    Reply::Timeout | Reply::Bad(_) => break,
+                    other => {
+                        bad = mid;
+                        reply = other;
+                    }
+                }
+            }
+            let text = (c.build)(bad);
+            match &reply {
+                Reply::Died { signal, code, stderr, during_drop } => {
+                    ctx.count("worker_deaths", 1);
+                    let cause = if stderr.contains("overflowed its stack") { "stack_overflow".to_string() } else if let Some(s) = signal { format!("signal_{}", s) } else { format!("exit_code_{:?}_without_verdict", code) };
+                    ctx.violation(
+                        json!({"kind": "process_death", "cause": cause, "while": if *during_drop { "dropping_the_tree" } else { "parsing" }, "recursion": c.recursion}),
+                        json!({"construct": c.name, "entry": c.entry, "depth_that_kills_the_worker": bad, "deepest_depth_answered": lo, "worker_stack_mb": 8, "input": clip(&text, 300), "input_len": text.len(), "signal": signal, "stderr": clip(stderr, 300)}),
+                    );
+                }
+                other => report_crash(ctx, c.entry, &text, other, c.name),
+            }
+        }
+        if ctx.wants_sample() {
+            ctx.sample(json!({"construct": c.name, "example_depth_3": (c.build)(3), "deepest_depth_answered": last_ok}));
+        }
+    }
+}
+
+// ---------------------------------------------------------------------------------------
+
+fn run(ctx: &mut Ctx) {
+    let mut pool = match Pool::new() {
+        Ok(p) => p,
+        Err(e) => {
+            ctx.inconclusive(&format!("worker binary unavailable: {}", e));
+            return;
+        }
+    };
+    phase_nesting(ctx, &mut pool);
+    phase_systematic(ctx, &mut pool);
+    phase_faithful(ctx, &mut pool, ctx.by_tier(24_000, 2_000_000), 0.50);
+    phase_trailing(ctx, &mut pool, ctx.by_tier(4_000, 200_000), 0.56);
+    phase_everyoffset(ctx, &mut pool, ctx.by_tier(64, 4_000), 0.78);
+    phase_mutate(ctx, &mut pool, ctx.by_tier(32_000, 4_000_000), 1.0);
+    ctx.count("worker_processes_started", pool.spawned);
+}
+
+fn main() {
+    let mut spec = Spec::new("C16", "exploration", RULE);
+    spec.assumptions = &[
+        "inputs reach the parsers as &str: arbitrary byte strings are made valid UTF-8 lossily first",
+        "the supported fragment is what the monitor's own printer emits: SELECT with the G-QUERY operators, the six update forms and the two legacy aliases, terms of every lexical class; the extension grammars (RULE, REGISTER, RETRIEVE, MODEL, NEURAL RELATION, TRAIN, ML.PREDICT) are only in the totality workloads because they are whitespace- and case-sensitive by design",
+        "normal form: every triples statement is its own BGP, a group of one element is that element unless the element is a FILTER or BIND joined with siblings (its scope is observable), comparison operands are compared both as the exact source slice and as the arithmetic tree obtained by parse_arithmetic_expression (what the plan lowering does)",
+        "the worker gives each request the 8 MB stack of the HTTP server thread; a worker that does not answer within 180 s is reported as inconclusive, never as a violation",
+        "booleans are printed in lower case, `<` `>` `<=` `>=` are always surrounded by white space (SPARQL tokenisation of `<` is otherwise ambiguous)",
+    ];
+    spec.quick_budget_s = 45;
+    spec.thorough_budget_s = 600;
+    kvcore::run(spec, run);
 }
